@@ -440,3 +440,1762 @@ Example guard_poly_index_mut_nonvacuous : ok_poly_index_mut (1) (0) /\ g_poly_in
 Proof. unfold ok_poly_index_mut, g_poly_index_mut; split; [lia | reflexivity]. Qed.
 Example guard_poly_roots_degree_nonvacuous : ok_poly_roots_degree (2) /\ g_poly_roots_degree (2) = false.
 Proof. unfold ok_poly_roots_degree, g_poly_roots_degree; split; [lia | reflexivity]. Qed.
+(* ======================================================================================================
+   C20 at the level of the model functions (package guards2): for every checked entry point, the model function
+   PANICS when the regenerated guard g_<entry> fires on the sizes of its arguments (rejects), RETURNS when it does
+   not (accepts: every checked rd/upd/usub inside succeeded -- no index or underflow panic for any size; where
+   the algorithm divides, the data-dependent panic is named in the statement), and for the mutating entries
+   leaves everything it does not address unchanged (frame).  The model is state-passing: a mutating function
+   returns `res state`, and `Panic k` carries no state -- a rejected call leaves the receiver the caller passed in.
+   One theorem per family; every entry is named in it (g_<entry> occurs in its conjuncts).
+   Lemmas: Proofs/GuardsModel{Vec,Mat,Solve,Band,Tri,Sparse,Iter,Mesh,Poly,Native,Atomic,Legacy}.v, bridged through guard_<entry>.
+   ====================================================================================================== *)
+From Coq Require Import List Arith Permutation Floats.
+From OV Require Import Base.Panic Base.Arith Inst.QcInst Inst.FloatInst Model.Complex.
+From OV Require Import Model.Vector Model.ParDot Model.Matrix Model.Solve Model.Banded Model.Tridiag Model.Sparse Model.Iter Model.Mesh Model.Poly Model.Roots.
+From OV Require Proofs.Matrix Proofs.LUPrim Proofs.LUQc Proofs.SolveBase Proofs.Solve Proofs.Banded Proofs.BandedComplete Proofs.Tridiag Proofs.SparseBase Proofs.SparseViews Proofs.MeshBase Proofs.MeshStore.
+From OV Require Proofs.GuardsModelBase Proofs.GuardsModelVec Proofs.GuardsModelMat Proofs.GuardsModelSolve Proofs.GuardsModelBand Proofs.GuardsModelTri Proofs.GuardsModelSparse Proofs.GuardsModelIter Proofs.GuardsModelMesh Proofs.GuardsModelPoly Proofs.GuardsModelNative Proofs.GuardsModelAtomic Proofs.GuardsModelLegacy Proofs.GuardsModelFamilies.
+Import ListNotations.
+Local Open Scope nat_scope.
+(* used by the non-vacuity Examples only: `panics_with k r = true` iff r = Panic k (keeps the evaluated goals small) *)
+Definition panics_with {X} (k : pkind) (r : res X) : bool :=
+  match r, k with
+  | Panic Guard, Guard | Panic Index, Index | Panic Underflow, Underflow | Panic DivZero, DivZero | Panic Unwrap, Unwrap => true
+  | _, _ => false
+  end.
+
+(* ---- Vector (8 entries): + - += -= dot dot_f64 (every worker count t >= 1) sum_slice product_slice; any arithmetic. ---- *)
+Theorem entry_contract_vector :
+  (* rejects_vec_add_ref *)
+    (forall (A : Arith) (u v : list A), g_vec_add_ref (Z.of_nat (length u)) (Z.of_nat (length v)) = true -> vadd u v = Panic Guard) /\
+  (* accepts_vec_add_ref *)
+    (forall (A : Arith) (u v : list A),
+     g_vec_add_ref (Z.of_nat (length u)) (Z.of_nat (length v)) = false -> exists r : list A, vadd u v = Ok r /\ length r = length u) /\
+  (* rejects_vec_sub_ref *)
+    (forall (A : Arith) (u v : list A), g_vec_sub_ref (Z.of_nat (length u)) (Z.of_nat (length v)) = true -> vsub u v = Panic Guard) /\
+  (* accepts_vec_sub_ref *)
+    (forall (A : Arith) (u v : list A),
+     g_vec_sub_ref (Z.of_nat (length u)) (Z.of_nat (length v)) = false -> exists r : list A, vsub u v = Ok r /\ length r = length u) /\
+  (* rejects_vec_add_assign *)
+    (forall (A : Arith) (u v : list A), g_vec_add_assign (Z.of_nat (length u)) (Z.of_nat (length v)) = true -> vadd_assign u v = Panic Guard) /\
+  (* accepts_vec_add_assign *)
+    (forall (A : Arith) (u v : list A),
+     g_vec_add_assign (Z.of_nat (length u)) (Z.of_nat (length v)) = false -> exists r : list A, vadd_assign u v = Ok r /\ length r = length u) /\
+  (* rejects_vec_sub_assign *)
+    (forall (A : Arith) (u v : list A), g_vec_sub_assign (Z.of_nat (length u)) (Z.of_nat (length v)) = true -> vsub_assign u v = Panic Guard) /\
+  (* accepts_vec_sub_assign *)
+    (forall (A : Arith) (u v : list A),
+     g_vec_sub_assign (Z.of_nat (length u)) (Z.of_nat (length v)) = false -> exists r : list A, vsub_assign u v = Ok r /\ length r = length u) /\
+  (* rejects_vec_dot *)
+    (forall (A : Arith) (u w : list A), g_vec_dot (Z.of_nat (length u)) (Z.of_nat (length w)) = true -> dot u w = Panic Guard) /\
+  (* accepts_vec_dot *)
+    (forall (A : Arith) (u w : list A), g_vec_dot (Z.of_nat (length u)) (Z.of_nat (length w)) = false -> exists x : A, dot u w = Ok x) /\
+  (* rejects_vec_dot_f64 *)
+    (forall (A : Arith) (t : nat) (u w : list A), g_vec_dot_f64 (Z.of_nat (length u)) (Z.of_nat (length w)) = true -> pardot t u w = Panic Guard) /\
+  (* accepts_vec_dot_f64 *)
+    (forall (A : Arith) (t : nat) (u w : list A),
+     1 <= t -> g_vec_dot_f64 (Z.of_nat (length u)) (Z.of_nat (length w)) = false -> exists x : A, pardot t u w = Ok x) /\
+  (* rejects_vec_sum_slice *)
+    (forall (A : Arith) (v : list A) (s e : nat),
+     g_vec_sum_slice (Z.of_nat (length v)) (Z.of_nat s) (Z.of_nat e) = true -> sum_slice v s e = Panic Guard) /\
+  (* accepts_vec_sum_slice *)
+    (forall (A : Arith) (v : list A) (s e : nat),
+     g_vec_sum_slice (Z.of_nat (length v)) (Z.of_nat s) (Z.of_nat e) = false -> exists x : A, sum_slice v s e = Ok x) /\
+  (* rejects_vec_product_slice *)
+    (forall (A : Arith) (v : list A) (s e : nat),
+     g_vec_product_slice (Z.of_nat (length v)) (Z.of_nat s) (Z.of_nat e) = true -> product_slice v s e = Panic Guard) /\
+  (* accepts_vec_product_slice *)
+    (forall (A : Arith) (v : list A) (s e : nat),
+     g_vec_product_slice (Z.of_nat (length v)) (Z.of_nat s) (Z.of_nat e) = false -> exists x : A, product_slice v s e = Ok x).
+Proof. exact GuardsModelFamilies.entry_contract_vector_lemma. Qed.
+Check entry_contract_vector :
+  (* rejects_vec_add_ref *)
+    (forall (A : Arith) (u v : list A), g_vec_add_ref (Z.of_nat (length u)) (Z.of_nat (length v)) = true -> vadd u v = Panic Guard) /\
+  (* accepts_vec_add_ref *)
+    (forall (A : Arith) (u v : list A),
+     g_vec_add_ref (Z.of_nat (length u)) (Z.of_nat (length v)) = false -> exists r : list A, vadd u v = Ok r /\ length r = length u) /\
+  (* rejects_vec_sub_ref *)
+    (forall (A : Arith) (u v : list A), g_vec_sub_ref (Z.of_nat (length u)) (Z.of_nat (length v)) = true -> vsub u v = Panic Guard) /\
+  (* accepts_vec_sub_ref *)
+    (forall (A : Arith) (u v : list A),
+     g_vec_sub_ref (Z.of_nat (length u)) (Z.of_nat (length v)) = false -> exists r : list A, vsub u v = Ok r /\ length r = length u) /\
+  (* rejects_vec_add_assign *)
+    (forall (A : Arith) (u v : list A), g_vec_add_assign (Z.of_nat (length u)) (Z.of_nat (length v)) = true -> vadd_assign u v = Panic Guard) /\
+  (* accepts_vec_add_assign *)
+    (forall (A : Arith) (u v : list A),
+     g_vec_add_assign (Z.of_nat (length u)) (Z.of_nat (length v)) = false -> exists r : list A, vadd_assign u v = Ok r /\ length r = length u) /\
+  (* rejects_vec_sub_assign *)
+    (forall (A : Arith) (u v : list A), g_vec_sub_assign (Z.of_nat (length u)) (Z.of_nat (length v)) = true -> vsub_assign u v = Panic Guard) /\
+  (* accepts_vec_sub_assign *)
+    (forall (A : Arith) (u v : list A),
+     g_vec_sub_assign (Z.of_nat (length u)) (Z.of_nat (length v)) = false -> exists r : list A, vsub_assign u v = Ok r /\ length r = length u) /\
+  (* rejects_vec_dot *)
+    (forall (A : Arith) (u w : list A), g_vec_dot (Z.of_nat (length u)) (Z.of_nat (length w)) = true -> dot u w = Panic Guard) /\
+  (* accepts_vec_dot *)
+    (forall (A : Arith) (u w : list A), g_vec_dot (Z.of_nat (length u)) (Z.of_nat (length w)) = false -> exists x : A, dot u w = Ok x) /\
+  (* rejects_vec_dot_f64 *)
+    (forall (A : Arith) (t : nat) (u w : list A), g_vec_dot_f64 (Z.of_nat (length u)) (Z.of_nat (length w)) = true -> pardot t u w = Panic Guard) /\
+  (* accepts_vec_dot_f64 *)
+    (forall (A : Arith) (t : nat) (u w : list A),
+     1 <= t -> g_vec_dot_f64 (Z.of_nat (length u)) (Z.of_nat (length w)) = false -> exists x : A, pardot t u w = Ok x) /\
+  (* rejects_vec_sum_slice *)
+    (forall (A : Arith) (v : list A) (s e : nat),
+     g_vec_sum_slice (Z.of_nat (length v)) (Z.of_nat s) (Z.of_nat e) = true -> sum_slice v s e = Panic Guard) /\
+  (* accepts_vec_sum_slice *)
+    (forall (A : Arith) (v : list A) (s e : nat),
+     g_vec_sum_slice (Z.of_nat (length v)) (Z.of_nat s) (Z.of_nat e) = false -> exists x : A, sum_slice v s e = Ok x) /\
+  (* rejects_vec_product_slice *)
+    (forall (A : Arith) (v : list A) (s e : nat),
+     g_vec_product_slice (Z.of_nat (length v)) (Z.of_nat s) (Z.of_nat e) = true -> product_slice v s e = Panic Guard) /\
+  (* accepts_vec_product_slice *)
+    (forall (A : Arith) (v : list A) (s e : nat),
+     g_vec_product_slice (Z.of_nat (length v)) (Z.of_nat s) (Z.of_nat e) = false -> exists x : A, product_slice v s e = Ok x).
+Print Assumptions entry_contract_vector.
+(* non-vacuity: both halves of the guards occur, and the model functions behave as stated, on concrete rational vectors *)
+Example entry_contract_vector_nonvacuous :
+  let u3 : list AQ := [q 1 1; q 2 1; q 3 1] in let u2 : list AQ := [q 1 2; q (-1) 3] in
+  g_vec_add_ref 3 2 = true /\ panics_with Guard (vadd u3 u2) = true /\ g_vec_add_ref 3 3 = false /\ is_ok (vadd u3 u3) = true /\
+  g_vec_sub_assign 2 3 = true /\ panics_with Guard (vsub_assign u2 u3) = true /\
+  g_vec_dot_f64 3 2 = true /\ panics_with Guard (pardot 4 u3 u2) = true /\ g_vec_dot_f64 3 3 = false /\ is_ok (pardot 4 u3 u3) = true /\
+  g_vec_sum_slice 3 1 3 = true /\ panics_with Guard (sum_slice u3 1 3) = true /\ g_vec_sum_slice 3 2 1 = true /\ panics_with Guard (sum_slice u3 2 1) = true /\
+  g_vec_product_slice 3 1 2 = false /\ is_ok (product_slice u3 1 2) = true.
+Proof. vm_compute. repeat split; reflexivity. Qed.
+
+(* ---- dense Matrix, operations.rs / arithmetic.rs (14 entries): get_row get_col set_row set_col fill_row fill_col swap_rows delete_row multiply + - += -= *;
+   rejection needs no well-formedness; same_shape m' m := wf m' /\ rows m' = rows m /\ cols m' = cols m; any arithmetic. ---- *)
+Theorem entry_contract_matrix :
+  (* rejects_mat_get_row *)
+    (forall (A : Arith) (m : matrix A) (row : nat),
+     g_mat_get_row (Z.of_nat (rows m)) (Z.of_nat (cols m)) (Z.of_nat row) = true -> get_row m row = Panic Guard) /\
+  (* accepts_mat_get_row *)
+    (forall (A : Arith) (m : matrix A) (row : nat),
+     Matrix.wf m ->
+     g_mat_get_row (Z.of_nat (rows m)) (Z.of_nat (cols m)) (Z.of_nat row) = false -> exists v : list A, get_row m row = Ok v /\ length v = cols m) /\
+  (* rejects_mat_get_col *)
+    (forall (A : Arith) (m : matrix A) (col : nat),
+     g_mat_get_col (Z.of_nat (rows m)) (Z.of_nat (cols m)) (Z.of_nat col) = true -> get_col m col = Panic Guard) /\
+  (* accepts_mat_get_col *)
+    (forall (A : Arith) (m : matrix A) (col : nat),
+     Matrix.wf m ->
+     g_mat_get_col (Z.of_nat (rows m)) (Z.of_nat (cols m)) (Z.of_nat col) = false -> exists v : list A, get_col m col = Ok v /\ length v = rows m) /\
+  (* rejects_mat_set_row *)
+    (forall (A : Arith) (m : matrix A) (row : nat) (v : list A),
+     g_mat_set_row (Z.of_nat (rows m)) (Z.of_nat (cols m)) (Z.of_nat row) (Z.of_nat (length v)) = true -> set_row m row v = Panic Guard) /\
+  (* accepts_mat_set_row *)
+    (forall (A : Arith) (m : matrix A) (row : nat) (v : list A),
+     Matrix.wf m ->
+     g_mat_set_row (Z.of_nat (rows m)) (Z.of_nat (cols m)) (Z.of_nat row) (Z.of_nat (length v)) = false ->
+     exists m' : matrix A, set_row m row v = Ok m') /\
+  (* frame_mat_set_row *)
+    (forall (A : Arith) (m : matrix A) (row : nat) (v : list A) (m' : matrix A),
+     Matrix.wf m ->
+     set_row m row v = Ok m' ->
+     GuardsModelMat.same_shape m' m /\ (forall i j : nat, i < rows m -> j < cols m -> i <> row -> Matrix.entry m' i j = Matrix.entry m i j)) /\
+  (* rejects_mat_set_col *)
+    (forall (A : Arith) (m : matrix A) (col : nat) (v : list A),
+     g_mat_set_col (Z.of_nat (rows m)) (Z.of_nat (cols m)) (Z.of_nat col) (Z.of_nat (length v)) = true -> set_col m col v = Panic Guard) /\
+  (* accepts_mat_set_col *)
+    (forall (A : Arith) (m : matrix A) (col : nat) (v : list A),
+     Matrix.wf m ->
+     g_mat_set_col (Z.of_nat (rows m)) (Z.of_nat (cols m)) (Z.of_nat col) (Z.of_nat (length v)) = false ->
+     exists m' : matrix A, set_col m col v = Ok m') /\
+  (* frame_mat_set_col *)
+    (forall (A : Arith) (m : matrix A) (col : nat) (v : list A) (m' : matrix A),
+     Matrix.wf m ->
+     set_col m col v = Ok m' ->
+     GuardsModelMat.same_shape m' m /\ (forall i j : nat, i < rows m -> j < cols m -> j <> col -> Matrix.entry m' i j = Matrix.entry m i j)) /\
+  (* rejects_mat_fill_row *)
+    (forall (A : Arith) (m : matrix A) (row : nat) (x : A),
+     g_mat_fill_row (Z.of_nat (rows m)) (Z.of_nat (cols m)) (Z.of_nat row) = true -> fill_row m row x = Panic Guard) /\
+  (* accepts_mat_fill_row *)
+    (forall (A : Arith) (m : matrix A) (row : nat) (x : A),
+     Matrix.wf m -> g_mat_fill_row (Z.of_nat (rows m)) (Z.of_nat (cols m)) (Z.of_nat row) = false -> exists m' : matrix A, fill_row m row x = Ok m') /\
+  (* frame_mat_fill_row *)
+    (forall (A : Arith) (m : matrix A) (row : nat) (x : A) (m' : matrix A),
+     Matrix.wf m ->
+     fill_row m row x = Ok m' ->
+     GuardsModelMat.same_shape m' m /\ (forall i j : nat, i < rows m -> j < cols m -> i <> row -> Matrix.entry m' i j = Matrix.entry m i j)) /\
+  (* rejects_mat_fill_col *)
+    (forall (A : Arith) (m : matrix A) (col : nat) (x : A),
+     g_mat_fill_col (Z.of_nat (rows m)) (Z.of_nat (cols m)) (Z.of_nat col) = true -> fill_col m col x = Panic Guard) /\
+  (* accepts_mat_fill_col *)
+    (forall (A : Arith) (m : matrix A) (col : nat) (x : A),
+     Matrix.wf m -> g_mat_fill_col (Z.of_nat (rows m)) (Z.of_nat (cols m)) (Z.of_nat col) = false -> exists m' : matrix A, fill_col m col x = Ok m') /\
+  (* frame_mat_fill_col *)
+    (forall (A : Arith) (m : matrix A) (col : nat) (x : A) (m' : matrix A),
+     Matrix.wf m ->
+     fill_col m col x = Ok m' ->
+     GuardsModelMat.same_shape m' m /\ (forall i j : nat, i < rows m -> j < cols m -> j <> col -> Matrix.entry m' i j = Matrix.entry m i j)) /\
+  (* rejects_mat_swap_rows *)
+    (forall (A : Arith) (m : matrix A) (r1 r2 : nat),
+     g_mat_swap_rows (Z.of_nat (rows m)) (Z.of_nat (cols m)) (Z.of_nat r1) (Z.of_nat r2) = true -> swap_rows m r1 r2 = Panic Guard) /\
+  (* accepts_mat_swap_rows *)
+    (forall (A : Arith) (m : matrix A) (r1 r2 : nat),
+     Matrix.wf m ->
+     g_mat_swap_rows (Z.of_nat (rows m)) (Z.of_nat (cols m)) (Z.of_nat r1) (Z.of_nat r2) = false -> exists m' : matrix A, swap_rows m r1 r2 = Ok m') /\
+  (* frame_mat_swap_rows *)
+    (forall (A : Arith) (m : matrix A) (r1 r2 : nat) (m' : matrix A),
+     Matrix.wf m ->
+     swap_rows m r1 r2 = Ok m' ->
+     GuardsModelMat.same_shape m' m /\
+     (forall i j : nat, i < rows m -> j < cols m -> i <> r1 -> i <> r2 -> Matrix.entry m' i j = Matrix.entry m i j)) /\
+  (* rejects_mat_delete_row *)
+    (forall (A : Arith) (m : matrix A) (row : nat),
+     g_mat_delete_row (Z.of_nat (rows m)) (Z.of_nat (cols m)) (Z.of_nat row) = true -> delete_row m row = Panic Guard) /\
+  (* accepts_mat_delete_row *)
+    (forall (A : Arith) (m : matrix A) (row : nat),
+     Matrix.wf m ->
+     g_mat_delete_row (Z.of_nat (rows m)) (Z.of_nat (cols m)) (Z.of_nat row) = false -> exists m' : matrix A, delete_row m row = Ok m') /\
+  (* frame_mat_delete_row *)
+    (forall (A : Arith) (m : matrix A) (row : nat) (m' : matrix A),
+     Matrix.wf m ->
+     delete_row m row = Ok m' ->
+     Matrix.wf m' /\
+     rows m' = rows m - 1 /\
+     cols m' = cols m /\
+     (forall i j : nat, i < row -> j < cols m -> Matrix.entry m' i j = Matrix.entry m i j) /\
+     (forall i j : nat, row <= i -> i < rows m - 1 -> j < cols m -> Matrix.entry m' i j = Matrix.entry m (S i) j)) /\
+  (* rejects_mat_multiply *)
+    (forall (A : Arith) (m : matrix A) (v : list A),
+     g_mat_multiply (Z.of_nat (rows m)) (Z.of_nat (cols m)) (Z.of_nat (length v)) = true -> multiply m v = Panic Guard) /\
+  (* accepts_mat_multiply *)
+    (forall (A : Arith) (m : matrix A) (v : list A),
+     Matrix.wf m ->
+     g_mat_multiply (Z.of_nat (rows m)) (Z.of_nat (cols m)) (Z.of_nat (length v)) = false ->
+     exists w : list A, multiply m v = Ok w /\ length w = rows m) /\
+  (* rejects_mat_add_ref *)
+    (forall (A : Arith) (a b : matrix A),
+     g_mat_add_ref (Z.of_nat (rows a)) (Z.of_nat (cols a)) (Z.of_nat (rows b)) (Z.of_nat (cols b)) = true -> madd a b = Panic Guard) /\
+  (* accepts_mat_add_ref *)
+    (forall (A : Arith) (a b : matrix A),
+     Matrix.wf a ->
+     Matrix.wf b ->
+     g_mat_add_ref (Z.of_nat (rows a)) (Z.of_nat (cols a)) (Z.of_nat (rows b)) (Z.of_nat (cols b)) = false ->
+     exists m' : matrix A, madd a b = Ok m' /\ GuardsModelMat.same_shape m' a) /\
+  (* rejects_mat_sub_ref *)
+    (forall (A : Arith) (a b : matrix A),
+     g_mat_sub_ref (Z.of_nat (rows a)) (Z.of_nat (cols a)) (Z.of_nat (rows b)) (Z.of_nat (cols b)) = true -> msub a b = Panic Guard) /\
+  (* accepts_mat_sub_ref *)
+    (forall (A : Arith) (a b : matrix A),
+     Matrix.wf a ->
+     Matrix.wf b ->
+     g_mat_sub_ref (Z.of_nat (rows a)) (Z.of_nat (cols a)) (Z.of_nat (rows b)) (Z.of_nat (cols b)) = false ->
+     exists m' : matrix A, msub a b = Ok m' /\ GuardsModelMat.same_shape m' a) /\
+  (* rejects_mat_add_assign_ref *)
+    (forall (A : Arith) (a b : matrix A),
+     g_mat_add_assign_ref (Z.of_nat (rows a)) (Z.of_nat (cols a)) (Z.of_nat (rows b)) (Z.of_nat (cols b)) = true -> madd_assign a b = Panic Guard) /\
+  (* accepts_mat_add_assign_ref *)
+    (forall (A : Arith) (a b : matrix A),
+     Matrix.wf a ->
+     Matrix.wf b ->
+     g_mat_add_assign_ref (Z.of_nat (rows a)) (Z.of_nat (cols a)) (Z.of_nat (rows b)) (Z.of_nat (cols b)) = false ->
+     exists m' : matrix A, madd_assign a b = Ok m' /\ GuardsModelMat.same_shape m' a) /\
+  (* rejects_mat_sub_assign_ref *)
+    (forall (A : Arith) (a b : matrix A),
+     g_mat_sub_assign_ref (Z.of_nat (rows a)) (Z.of_nat (cols a)) (Z.of_nat (rows b)) (Z.of_nat (cols b)) = true -> msub_assign a b = Panic Guard) /\
+  (* accepts_mat_sub_assign_ref *)
+    (forall (A : Arith) (a b : matrix A),
+     Matrix.wf a ->
+     Matrix.wf b ->
+     g_mat_sub_assign_ref (Z.of_nat (rows a)) (Z.of_nat (cols a)) (Z.of_nat (rows b)) (Z.of_nat (cols b)) = false ->
+     exists m' : matrix A, msub_assign a b = Ok m' /\ GuardsModelMat.same_shape m' a) /\
+  (* rejects_mat_mul_ref *)
+    (forall (A : Arith) (a b : matrix A),
+     g_mat_mul_ref (Z.of_nat (rows a)) (Z.of_nat (cols a)) (Z.of_nat (rows b)) (Z.of_nat (cols b)) = true -> mat_mul a b = Panic Guard) /\
+  (* accepts_mat_mul_ref *)
+    (forall (A : Arith) (a b : matrix A),
+     Matrix.wf a ->
+     Matrix.wf b ->
+     g_mat_mul_ref (Z.of_nat (rows a)) (Z.of_nat (cols a)) (Z.of_nat (rows b)) (Z.of_nat (cols b)) = false ->
+     exists c : matrix A, mat_mul a b = Ok c /\ Matrix.wf c /\ rows c = rows a /\ cols c = cols b).
+Proof. exact GuardsModelFamilies.entry_contract_matrix_lemma. Qed.
+Check entry_contract_matrix :
+  (* rejects_mat_get_row *)
+    (forall (A : Arith) (m : matrix A) (row : nat),
+     g_mat_get_row (Z.of_nat (rows m)) (Z.of_nat (cols m)) (Z.of_nat row) = true -> get_row m row = Panic Guard) /\
+  (* accepts_mat_get_row *)
+    (forall (A : Arith) (m : matrix A) (row : nat),
+     Matrix.wf m ->
+     g_mat_get_row (Z.of_nat (rows m)) (Z.of_nat (cols m)) (Z.of_nat row) = false -> exists v : list A, get_row m row = Ok v /\ length v = cols m) /\
+  (* rejects_mat_get_col *)
+    (forall (A : Arith) (m : matrix A) (col : nat),
+     g_mat_get_col (Z.of_nat (rows m)) (Z.of_nat (cols m)) (Z.of_nat col) = true -> get_col m col = Panic Guard) /\
+  (* accepts_mat_get_col *)
+    (forall (A : Arith) (m : matrix A) (col : nat),
+     Matrix.wf m ->
+     g_mat_get_col (Z.of_nat (rows m)) (Z.of_nat (cols m)) (Z.of_nat col) = false -> exists v : list A, get_col m col = Ok v /\ length v = rows m) /\
+  (* rejects_mat_set_row *)
+    (forall (A : Arith) (m : matrix A) (row : nat) (v : list A),
+     g_mat_set_row (Z.of_nat (rows m)) (Z.of_nat (cols m)) (Z.of_nat row) (Z.of_nat (length v)) = true -> set_row m row v = Panic Guard) /\
+  (* accepts_mat_set_row *)
+    (forall (A : Arith) (m : matrix A) (row : nat) (v : list A),
+     Matrix.wf m ->
+     g_mat_set_row (Z.of_nat (rows m)) (Z.of_nat (cols m)) (Z.of_nat row) (Z.of_nat (length v)) = false ->
+     exists m' : matrix A, set_row m row v = Ok m') /\
+  (* frame_mat_set_row *)
+    (forall (A : Arith) (m : matrix A) (row : nat) (v : list A) (m' : matrix A),
+     Matrix.wf m ->
+     set_row m row v = Ok m' ->
+     GuardsModelMat.same_shape m' m /\ (forall i j : nat, i < rows m -> j < cols m -> i <> row -> Matrix.entry m' i j = Matrix.entry m i j)) /\
+  (* rejects_mat_set_col *)
+    (forall (A : Arith) (m : matrix A) (col : nat) (v : list A),
+     g_mat_set_col (Z.of_nat (rows m)) (Z.of_nat (cols m)) (Z.of_nat col) (Z.of_nat (length v)) = true -> set_col m col v = Panic Guard) /\
+  (* accepts_mat_set_col *)
+    (forall (A : Arith) (m : matrix A) (col : nat) (v : list A),
+     Matrix.wf m ->
+     g_mat_set_col (Z.of_nat (rows m)) (Z.of_nat (cols m)) (Z.of_nat col) (Z.of_nat (length v)) = false ->
+     exists m' : matrix A, set_col m col v = Ok m') /\
+  (* frame_mat_set_col *)
+    (forall (A : Arith) (m : matrix A) (col : nat) (v : list A) (m' : matrix A),
+     Matrix.wf m ->
+     set_col m col v = Ok m' ->
+     GuardsModelMat.same_shape m' m /\ (forall i j : nat, i < rows m -> j < cols m -> j <> col -> Matrix.entry m' i j = Matrix.entry m i j)) /\
+  (* rejects_mat_fill_row *)
+    (forall (A : Arith) (m : matrix A) (row : nat) (x : A),
+     g_mat_fill_row (Z.of_nat (rows m)) (Z.of_nat (cols m)) (Z.of_nat row) = true -> fill_row m row x = Panic Guard) /\
+  (* accepts_mat_fill_row *)
+    (forall (A : Arith) (m : matrix A) (row : nat) (x : A),
+     Matrix.wf m -> g_mat_fill_row (Z.of_nat (rows m)) (Z.of_nat (cols m)) (Z.of_nat row) = false -> exists m' : matrix A, fill_row m row x = Ok m') /\
+  (* frame_mat_fill_row *)
+    (forall (A : Arith) (m : matrix A) (row : nat) (x : A) (m' : matrix A),
+     Matrix.wf m ->
+     fill_row m row x = Ok m' ->
+     GuardsModelMat.same_shape m' m /\ (forall i j : nat, i < rows m -> j < cols m -> i <> row -> Matrix.entry m' i j = Matrix.entry m i j)) /\
+  (* rejects_mat_fill_col *)
+    (forall (A : Arith) (m : matrix A) (col : nat) (x : A),
+     g_mat_fill_col (Z.of_nat (rows m)) (Z.of_nat (cols m)) (Z.of_nat col) = true -> fill_col m col x = Panic Guard) /\
+  (* accepts_mat_fill_col *)
+    (forall (A : Arith) (m : matrix A) (col : nat) (x : A),
+     Matrix.wf m -> g_mat_fill_col (Z.of_nat (rows m)) (Z.of_nat (cols m)) (Z.of_nat col) = false -> exists m' : matrix A, fill_col m col x = Ok m') /\
+  (* frame_mat_fill_col *)
+    (forall (A : Arith) (m : matrix A) (col : nat) (x : A) (m' : matrix A),
+     Matrix.wf m ->
+     fill_col m col x = Ok m' ->
+     GuardsModelMat.same_shape m' m /\ (forall i j : nat, i < rows m -> j < cols m -> j <> col -> Matrix.entry m' i j = Matrix.entry m i j)) /\
+  (* rejects_mat_swap_rows *)
+    (forall (A : Arith) (m : matrix A) (r1 r2 : nat),
+     g_mat_swap_rows (Z.of_nat (rows m)) (Z.of_nat (cols m)) (Z.of_nat r1) (Z.of_nat r2) = true -> swap_rows m r1 r2 = Panic Guard) /\
+  (* accepts_mat_swap_rows *)
+    (forall (A : Arith) (m : matrix A) (r1 r2 : nat),
+     Matrix.wf m ->
+     g_mat_swap_rows (Z.of_nat (rows m)) (Z.of_nat (cols m)) (Z.of_nat r1) (Z.of_nat r2) = false -> exists m' : matrix A, swap_rows m r1 r2 = Ok m') /\
+  (* frame_mat_swap_rows *)
+    (forall (A : Arith) (m : matrix A) (r1 r2 : nat) (m' : matrix A),
+     Matrix.wf m ->
+     swap_rows m r1 r2 = Ok m' ->
+     GuardsModelMat.same_shape m' m /\
+     (forall i j : nat, i < rows m -> j < cols m -> i <> r1 -> i <> r2 -> Matrix.entry m' i j = Matrix.entry m i j)) /\
+  (* rejects_mat_delete_row *)
+    (forall (A : Arith) (m : matrix A) (row : nat),
+     g_mat_delete_row (Z.of_nat (rows m)) (Z.of_nat (cols m)) (Z.of_nat row) = true -> delete_row m row = Panic Guard) /\
+  (* accepts_mat_delete_row *)
+    (forall (A : Arith) (m : matrix A) (row : nat),
+     Matrix.wf m ->
+     g_mat_delete_row (Z.of_nat (rows m)) (Z.of_nat (cols m)) (Z.of_nat row) = false -> exists m' : matrix A, delete_row m row = Ok m') /\
+  (* frame_mat_delete_row *)
+    (forall (A : Arith) (m : matrix A) (row : nat) (m' : matrix A),
+     Matrix.wf m ->
+     delete_row m row = Ok m' ->
+     Matrix.wf m' /\
+     rows m' = rows m - 1 /\
+     cols m' = cols m /\
+     (forall i j : nat, i < row -> j < cols m -> Matrix.entry m' i j = Matrix.entry m i j) /\
+     (forall i j : nat, row <= i -> i < rows m - 1 -> j < cols m -> Matrix.entry m' i j = Matrix.entry m (S i) j)) /\
+  (* rejects_mat_multiply *)
+    (forall (A : Arith) (m : matrix A) (v : list A),
+     g_mat_multiply (Z.of_nat (rows m)) (Z.of_nat (cols m)) (Z.of_nat (length v)) = true -> multiply m v = Panic Guard) /\
+  (* accepts_mat_multiply *)
+    (forall (A : Arith) (m : matrix A) (v : list A),
+     Matrix.wf m ->
+     g_mat_multiply (Z.of_nat (rows m)) (Z.of_nat (cols m)) (Z.of_nat (length v)) = false ->
+     exists w : list A, multiply m v = Ok w /\ length w = rows m) /\
+  (* rejects_mat_add_ref *)
+    (forall (A : Arith) (a b : matrix A),
+     g_mat_add_ref (Z.of_nat (rows a)) (Z.of_nat (cols a)) (Z.of_nat (rows b)) (Z.of_nat (cols b)) = true -> madd a b = Panic Guard) /\
+  (* accepts_mat_add_ref *)
+    (forall (A : Arith) (a b : matrix A),
+     Matrix.wf a ->
+     Matrix.wf b ->
+     g_mat_add_ref (Z.of_nat (rows a)) (Z.of_nat (cols a)) (Z.of_nat (rows b)) (Z.of_nat (cols b)) = false ->
+     exists m' : matrix A, madd a b = Ok m' /\ GuardsModelMat.same_shape m' a) /\
+  (* rejects_mat_sub_ref *)
+    (forall (A : Arith) (a b : matrix A),
+     g_mat_sub_ref (Z.of_nat (rows a)) (Z.of_nat (cols a)) (Z.of_nat (rows b)) (Z.of_nat (cols b)) = true -> msub a b = Panic Guard) /\
+  (* accepts_mat_sub_ref *)
+    (forall (A : Arith) (a b : matrix A),
+     Matrix.wf a ->
+     Matrix.wf b ->
+     g_mat_sub_ref (Z.of_nat (rows a)) (Z.of_nat (cols a)) (Z.of_nat (rows b)) (Z.of_nat (cols b)) = false ->
+     exists m' : matrix A, msub a b = Ok m' /\ GuardsModelMat.same_shape m' a) /\
+  (* rejects_mat_add_assign_ref *)
+    (forall (A : Arith) (a b : matrix A),
+     g_mat_add_assign_ref (Z.of_nat (rows a)) (Z.of_nat (cols a)) (Z.of_nat (rows b)) (Z.of_nat (cols b)) = true -> madd_assign a b = Panic Guard) /\
+  (* accepts_mat_add_assign_ref *)
+    (forall (A : Arith) (a b : matrix A),
+     Matrix.wf a ->
+     Matrix.wf b ->
+     g_mat_add_assign_ref (Z.of_nat (rows a)) (Z.of_nat (cols a)) (Z.of_nat (rows b)) (Z.of_nat (cols b)) = false ->
+     exists m' : matrix A, madd_assign a b = Ok m' /\ GuardsModelMat.same_shape m' a) /\
+  (* rejects_mat_sub_assign_ref *)
+    (forall (A : Arith) (a b : matrix A),
+     g_mat_sub_assign_ref (Z.of_nat (rows a)) (Z.of_nat (cols a)) (Z.of_nat (rows b)) (Z.of_nat (cols b)) = true -> msub_assign a b = Panic Guard) /\
+  (* accepts_mat_sub_assign_ref *)
+    (forall (A : Arith) (a b : matrix A),
+     Matrix.wf a ->
+     Matrix.wf b ->
+     g_mat_sub_assign_ref (Z.of_nat (rows a)) (Z.of_nat (cols a)) (Z.of_nat (rows b)) (Z.of_nat (cols b)) = false ->
+     exists m' : matrix A, msub_assign a b = Ok m' /\ GuardsModelMat.same_shape m' a) /\
+  (* rejects_mat_mul_ref *)
+    (forall (A : Arith) (a b : matrix A),
+     g_mat_mul_ref (Z.of_nat (rows a)) (Z.of_nat (cols a)) (Z.of_nat (rows b)) (Z.of_nat (cols b)) = true -> mat_mul a b = Panic Guard) /\
+  (* accepts_mat_mul_ref *)
+    (forall (A : Arith) (a b : matrix A),
+     Matrix.wf a ->
+     Matrix.wf b ->
+     g_mat_mul_ref (Z.of_nat (rows a)) (Z.of_nat (cols a)) (Z.of_nat (rows b)) (Z.of_nat (cols b)) = false ->
+     exists c : matrix A, mat_mul a b = Ok c /\ Matrix.wf c /\ rows c = rows a /\ cols c = cols b).
+Print Assumptions entry_contract_matrix.
+(* non-vacuity on a 2x3 rational matrix: column 2 exists (the pre-repair set_col guard refused it) and is accepted, column 3 and a
+   vector of the wrong length are rejected; 2x3 * 2x3 is rejected, 2x3 * 3x2 accepted *)
+Example entry_contract_matrix_nonvacuous :
+  let M : matrix AQ := @mkM AQ [q 1 1; q 2 1; q 3 1; q 4 1; q 5 1; q 6 1] 2 3 in
+  let N : matrix AQ := @mkM AQ [q 1 1; q 0 1; q 0 1; q 1 1; q 2 1; q 2 1] 3 2 in
+  Matrix.wf M /\ Matrix.wf N /\
+  g_mat_set_col 2 3 2 2 = false /\ is_ok (set_col M 2 [q 9 1; q 8 1]) = true /\
+  g_mat_set_col 2 3 3 2 = true /\ panics_with Guard (set_col M 3 [q 9 1; q 8 1]) = true /\
+  g_mat_set_col 2 3 1 3 = true /\ panics_with Guard (set_col M 1 [q 9 1; q 8 1; q 7 1]) = true /\
+  g_mat_swap_rows 2 3 0 2 = true /\ panics_with Guard (swap_rows M 0 2) = true /\ g_mat_delete_row 2 3 1 = false /\ is_ok (delete_row M 1) = true /\
+  g_mat_mul_ref 2 3 2 3 = true /\ panics_with Guard (mat_mul M M) = true /\ g_mat_mul_ref 2 3 3 2 = false /\ is_ok (mat_mul M N) = true /\
+  g_mat_add_assign_ref 2 3 3 2 = true /\ panics_with Guard (madd_assign M N) = true.
+Proof. vm_compute. repeat split; reflexivity. Qed.
+
+(* ---- dense Matrix, solve.rs (5 entries): solve_basic lu_decomp_in_place solve_lu inverse determinant; rejection unconditional;
+   acceptance over any field with a magnitude, data-dependent division panics named. ---- *)
+Theorem entry_contract_solve :
+  (* rejects_mat_solve_basic *)
+    (forall (A : Arith) (M : matrix A) (b : list A),
+     g_mat_solve_basic (Z.of_nat (rows M)) (Z.of_nat (cols M)) (Z.of_nat (length b)) = true -> solve_basic M b = Panic Guard) /\
+  (* rejects_mat_lu *)
+    (forall (A : Arith) (M : matrix A), g_mat_lu (Z.of_nat (rows M)) (Z.of_nat (cols M)) = true -> lu_decomp M = Panic Guard) /\
+  (* rejects_mat_solve_lu *)
+    (forall (A : Arith) (M : matrix A) (b : list A),
+     g_mat_solve_lu (Z.of_nat (rows M)) (Z.of_nat (cols M)) (Z.of_nat (length b)) = true -> solve_lu M b = Panic Guard) /\
+  (* rejects_mat_inverse *)
+    (forall (A : Arith) (M : matrix A), g_mat_inverse (Z.of_nat (rows M)) (Z.of_nat (cols M)) = true -> inverse M = Panic Guard) /\
+  (* rejects_mat_determinant *)
+    (forall (A : Arith) (M : matrix A), g_mat_determinant (Z.of_nat (rows M)) (Z.of_nat (cols M)) = true -> determinant M = Panic Guard) /\
+  (* accepts_mat_lu *)
+    (forall A : Arith,
+     FieldLaws A ->
+     forall M : matrix A,
+     LUPrim.PivLaws A ->
+     Matrix.wf M ->
+     g_mat_lu (Z.of_nat (rows M)) (Z.of_nat (cols M)) = false ->
+     exists (LU : matrix A) (piv : nat) (P : matrix A),
+       lu_decomp M = Ok (LU, piv, P) /\ LUPrim.shape LU (rows M) (rows M) /\ LUPrim.shape P (rows M) (rows M)) /\
+  (* accepts_mat_determinant *)
+    (forall A : Arith,
+     FieldLaws A ->
+     forall M : matrix A,
+     LUPrim.PivLaws A -> Matrix.wf M -> g_mat_determinant (Z.of_nat (rows M)) (Z.of_nat (cols M)) = false -> exists d : A, determinant M = Ok d) /\
+  (* accepts_mat_inverse *)
+    (forall A : Arith,
+     FieldLaws A ->
+     forall M : matrix A,
+     LUPrim.PivLaws A ->
+     Matrix.wf M ->
+     g_mat_inverse (Z.of_nat (rows M)) (Z.of_nat (cols M)) = false ->
+     exists d : A,
+       determinant M = Ok d /\ (d <> zero -> exists N : matrix A, inverse M = Ok N) /\ (1 <= rows M -> d = zero -> inverse M = Panic DivZero)) /\
+  (* accepts_mat_solve_lu *)
+    (forall A : Arith,
+     FieldLaws A ->
+     forall (M : matrix A) (b : list A),
+     LUPrim.PivLaws A ->
+     Matrix.wf M ->
+     g_mat_solve_lu (Z.of_nat (rows M)) (Z.of_nat (cols M)) (Z.of_nat (length b)) = false ->
+     1 <= rows M -> forall d : A, determinant M = Ok d -> d <> zero -> exists x : list A, solve_lu M b = Ok x) /\
+  (* accepts_mat_solve_basic *)
+    (forall A : Arith,
+     FieldLaws A ->
+     forall (M : matrix A) (b : list A),
+     Matrix.wf M ->
+     g_mat_solve_basic (Z.of_nat (rows M)) (Z.of_nat (cols M)) (Z.of_nat (length b)) = false ->
+     1 <= rows M ->
+     (forall k : pkind, solve_basic M b = Panic k -> k = DivZero) /\
+     (SolveBase.PivLaws A ->
+      (exists N : nat -> nat -> A, Solve.left_inverse (rows M) N (Matrix.entry M)) -> exists x : list A, solve_basic M b = Ok x)).
+Proof. exact GuardsModelFamilies.entry_contract_solve_lemma. Qed.
+Check entry_contract_solve :
+  (* rejects_mat_solve_basic *)
+    (forall (A : Arith) (M : matrix A) (b : list A),
+     g_mat_solve_basic (Z.of_nat (rows M)) (Z.of_nat (cols M)) (Z.of_nat (length b)) = true -> solve_basic M b = Panic Guard) /\
+  (* rejects_mat_lu *)
+    (forall (A : Arith) (M : matrix A), g_mat_lu (Z.of_nat (rows M)) (Z.of_nat (cols M)) = true -> lu_decomp M = Panic Guard) /\
+  (* rejects_mat_solve_lu *)
+    (forall (A : Arith) (M : matrix A) (b : list A),
+     g_mat_solve_lu (Z.of_nat (rows M)) (Z.of_nat (cols M)) (Z.of_nat (length b)) = true -> solve_lu M b = Panic Guard) /\
+  (* rejects_mat_inverse *)
+    (forall (A : Arith) (M : matrix A), g_mat_inverse (Z.of_nat (rows M)) (Z.of_nat (cols M)) = true -> inverse M = Panic Guard) /\
+  (* rejects_mat_determinant *)
+    (forall (A : Arith) (M : matrix A), g_mat_determinant (Z.of_nat (rows M)) (Z.of_nat (cols M)) = true -> determinant M = Panic Guard) /\
+  (* accepts_mat_lu *)
+    (forall A : Arith,
+     FieldLaws A ->
+     forall M : matrix A,
+     LUPrim.PivLaws A ->
+     Matrix.wf M ->
+     g_mat_lu (Z.of_nat (rows M)) (Z.of_nat (cols M)) = false ->
+     exists (LU : matrix A) (piv : nat) (P : matrix A),
+       lu_decomp M = Ok (LU, piv, P) /\ LUPrim.shape LU (rows M) (rows M) /\ LUPrim.shape P (rows M) (rows M)) /\
+  (* accepts_mat_determinant *)
+    (forall A : Arith,
+     FieldLaws A ->
+     forall M : matrix A,
+     LUPrim.PivLaws A -> Matrix.wf M -> g_mat_determinant (Z.of_nat (rows M)) (Z.of_nat (cols M)) = false -> exists d : A, determinant M = Ok d) /\
+  (* accepts_mat_inverse *)
+    (forall A : Arith,
+     FieldLaws A ->
+     forall M : matrix A,
+     LUPrim.PivLaws A ->
+     Matrix.wf M ->
+     g_mat_inverse (Z.of_nat (rows M)) (Z.of_nat (cols M)) = false ->
+     exists d : A,
+       determinant M = Ok d /\ (d <> zero -> exists N : matrix A, inverse M = Ok N) /\ (1 <= rows M -> d = zero -> inverse M = Panic DivZero)) /\
+  (* accepts_mat_solve_lu *)
+    (forall A : Arith,
+     FieldLaws A ->
+     forall (M : matrix A) (b : list A),
+     LUPrim.PivLaws A ->
+     Matrix.wf M ->
+     g_mat_solve_lu (Z.of_nat (rows M)) (Z.of_nat (cols M)) (Z.of_nat (length b)) = false ->
+     1 <= rows M -> forall d : A, determinant M = Ok d -> d <> zero -> exists x : list A, solve_lu M b = Ok x) /\
+  (* accepts_mat_solve_basic *)
+    (forall A : Arith,
+     FieldLaws A ->
+     forall (M : matrix A) (b : list A),
+     Matrix.wf M ->
+     g_mat_solve_basic (Z.of_nat (rows M)) (Z.of_nat (cols M)) (Z.of_nat (length b)) = false ->
+     1 <= rows M ->
+     (forall k : pkind, solve_basic M b = Panic k -> k = DivZero) /\
+     (SolveBase.PivLaws A ->
+      (exists N : nat -> nat -> A, Solve.left_inverse (rows M) N (Matrix.entry M)) -> exists x : list A, solve_basic M b = Ok x)).
+Print Assumptions entry_contract_solve.
+(* non-vacuity: the field and magnitude laws hold at Qc; a nonsingular 2x2 system is solved by both solvers and inverted, a non-square one
+   and a wrong right-hand side are rejected, the singular all-ones matrix has determinant Ok 0 and its inverse is the division panic *)
+Example entry_contract_solve_nonvacuous :
+  let M : matrix AQ := @mkM AQ [q 2 1; q 1 1; q 1 1; q 3 1] 2 2 in
+  let J : matrix AQ := @mkM AQ [q 1 1; q 1 1; q 1 1; q 1 1] 2 2 in
+  let R : matrix AQ := @mkM AQ [q 1 1; q 2 1; q 3 1; q 4 1; q 5 1; q 6 1] 2 3 in
+  LUPrim.PivLaws AQ /\ Matrix.wf M /\
+  g_mat_solve_basic 2 2 2 = false /\ is_ok (solve_basic M [q 1 1; q 2 1]) = true /\ is_ok (solve_lu M [q 1 1; q 2 1]) = true /\
+  g_mat_solve_basic 2 2 3 = true /\ panics_with Guard (solve_basic M [q 1 1; q 2 1; q 3 1]) = true /\ panics_with Guard (solve_lu M [q 1 1; q 2 1; q 3 1]) = true /\
+  g_mat_determinant 2 3 = true /\ panics_with Guard (determinant R) = true /\ panics_with Guard (inverse R) = true /\ panics_with Guard (lu_decomp R) = true /\
+  is_ok (inverse M) = true /\ is_ok (determinant J) = true /\ panics_with DivZero (inverse J) = true.
+Proof. split; [exact LUQc.AQ_PivLaws|]. vm_compute. repeat split; reflexivity. Qed.
+
+(* ---- Banded (9 entries): fill_band solve index index_mut + - += -= (matrix * vector); acceptance over ANY arithmetic for every (n, m1, m2)
+   (solve: over a field, the complete outcome list); frames on the raw compact storage, padding included. ---- *)
+Theorem entry_contract_banded :
+  (* rejects_band_fill_band *)
+    (forall (A : Arith) (B : banded A) (band : Z) (x : A),
+     g_band_fill_band (Z.of_nat (bn B)) (Z.of_nat (bm1 B)) (Z.of_nat (bm2 B)) band = true -> band_fill_band B band x = Panic Guard) /\
+  (* accepts_band_fill_band *)
+    (forall (A : Arith) (B : banded A) (band : Z) (x : A),
+     Banded.wfB B ->
+     g_band_fill_band (Z.of_nat (bn B)) (Z.of_nat (bm1 B)) (Z.of_nat (bm2 B)) band = false -> exists B' : banded A, band_fill_band B band x = Ok B') /\
+  (* frame_band_fill_band *)
+    (forall (A : Arith) (B : banded A) (band : Z) (x : A) (B' : banded A),
+     Banded.wfB B ->
+     band_fill_band B band x = Ok B' ->
+     GuardsModelBand.same_sizes B' B /\
+     (forall i s : nat,
+      i < bn B -> s < bm1 B + bm2 B + 1 -> s <> Z.to_nat (Z.of_nat (bm1 B) + band) -> Matrix.entry (compact B') i s = Matrix.entry (compact B) i s)) /\
+  (* rejects_band_index *)
+    (forall (A : Arith) (B : banded A) (i j : nat),
+     g_band_index (Z.of_nat (bn B)) (Z.of_nat (bm1 B)) (Z.of_nat (bm2 B)) (Z.of_nat i) (Z.of_nat j) = true -> band_get B i j = Panic Guard) /\
+  (* accepts_band_index *)
+    (forall (A : Arith) (B : banded A) (i j : nat),
+     Banded.wfB B ->
+     i < bn B ->
+     g_band_index (Z.of_nat (bn B)) (Z.of_nat (bm1 B)) (Z.of_nat (bm2 B)) (Z.of_nat i) (Z.of_nat j) = false -> exists x : A, band_get B i j = Ok x) /\
+  (* rejects_band_index_mut *)
+    (forall (A : Arith) (B : banded A) (i j : nat) (x : A),
+     g_band_index_mut (Z.of_nat (bn B)) (Z.of_nat (bm1 B)) (Z.of_nat (bm2 B)) (Z.of_nat i) (Z.of_nat j) = true -> band_set B i j x = Panic Guard) /\
+  (* accepts_band_index_mut *)
+    (forall (A : Arith) (B : banded A) (i j : nat) (x : A),
+     Banded.wfB B ->
+     i < bn B ->
+     g_band_index_mut (Z.of_nat (bn B)) (Z.of_nat (bm1 B)) (Z.of_nat (bm2 B)) (Z.of_nat i) (Z.of_nat j) = false ->
+     exists B' : banded A, band_set B i j x = Ok B') /\
+  (* frame_band_index_mut *)
+    (forall (A : Arith) (B : banded A) (i j : nat) (x : A) (B' : banded A),
+     Banded.wfB B ->
+     i < bn B ->
+     band_set B i j x = Ok B' ->
+     GuardsModelBand.same_sizes B' B /\
+     (forall i' s : nat,
+      i' < bn B -> s < bm1 B + bm2 B + 1 -> (i', s) <> (i, band_slot (bm1 B) i j) -> Matrix.entry (compact B') i' s = Matrix.entry (compact B) i' s)) /\
+  (* rejects_band_add_ref *)
+    (forall (A : Arith) (B C : banded A),
+     g_band_add_ref (Z.of_nat (bn B)) (Z.of_nat (bm1 B)) (Z.of_nat (bm2 B)) (Z.of_nat (bn C)) (Z.of_nat (bm1 C)) (Z.of_nat (bm2 C)) = true ->
+     band_add B C = Panic Guard) /\
+  (* accepts_band_add_ref *)
+    (forall (A : Arith) (B C : banded A),
+     Banded.wfB B ->
+     Banded.wfB C ->
+     g_band_add_ref (Z.of_nat (bn B)) (Z.of_nat (bm1 B)) (Z.of_nat (bm2 B)) (Z.of_nat (bn C)) (Z.of_nat (bm1 C)) (Z.of_nat (bm2 C)) = false ->
+     exists R : banded A, band_add B C = Ok R /\ GuardsModelBand.same_sizes R B) /\
+  (* rejects_band_sub_ref *)
+    (forall (A : Arith) (B C : banded A),
+     g_band_sub_ref (Z.of_nat (bn B)) (Z.of_nat (bm1 B)) (Z.of_nat (bm2 B)) (Z.of_nat (bn C)) (Z.of_nat (bm1 C)) (Z.of_nat (bm2 C)) = true ->
+     band_sub B C = Panic Guard) /\
+  (* accepts_band_sub_ref *)
+    (forall (A : Arith) (B C : banded A),
+     Banded.wfB B ->
+     Banded.wfB C ->
+     g_band_sub_ref (Z.of_nat (bn B)) (Z.of_nat (bm1 B)) (Z.of_nat (bm2 B)) (Z.of_nat (bn C)) (Z.of_nat (bm1 C)) (Z.of_nat (bm2 C)) = false ->
+     exists R : banded A, band_sub B C = Ok R /\ GuardsModelBand.same_sizes R B) /\
+  (* rejects_band_add_assign_ref *)
+    (forall (A : Arith) (B C : banded A),
+     g_band_add_assign_ref (Z.of_nat (bn B)) (Z.of_nat (bm1 B)) (Z.of_nat (bm2 B)) (Z.of_nat (bn C)) (Z.of_nat (bm1 C)) (Z.of_nat (bm2 C)) = true ->
+     band_add_assign B C = Panic Guard) /\
+  (* accepts_band_add_assign_ref *)
+    (forall (A : Arith) (B C : banded A),
+     Banded.wfB B ->
+     Banded.wfB C ->
+     g_band_add_assign_ref (Z.of_nat (bn B)) (Z.of_nat (bm1 B)) (Z.of_nat (bm2 B)) (Z.of_nat (bn C)) (Z.of_nat (bm1 C)) (Z.of_nat (bm2 C)) = false ->
+     exists R : banded A, band_add_assign B C = Ok R /\ GuardsModelBand.same_sizes R B) /\
+  (* rejects_band_sub_assign_ref *)
+    (forall (A : Arith) (B C : banded A),
+     g_band_sub_assign_ref (Z.of_nat (bn B)) (Z.of_nat (bm1 B)) (Z.of_nat (bm2 B)) (Z.of_nat (bn C)) (Z.of_nat (bm1 C)) (Z.of_nat (bm2 C)) = true ->
+     band_sub_assign B C = Panic Guard) /\
+  (* accepts_band_sub_assign_ref *)
+    (forall (A : Arith) (B C : banded A),
+     Banded.wfB B ->
+     Banded.wfB C ->
+     g_band_sub_assign_ref (Z.of_nat (bn B)) (Z.of_nat (bm1 B)) (Z.of_nat (bm2 B)) (Z.of_nat (bn C)) (Z.of_nat (bm1 C)) (Z.of_nat (bm2 C)) = false ->
+     exists R : banded A, band_sub_assign B C = Ok R /\ GuardsModelBand.same_sizes R B) /\
+  (* rejects_band_mul_vec *)
+    (forall (A : Arith) (B : banded A) (v : list A),
+     g_band_mul_vec (Z.of_nat (bn B)) (Z.of_nat (bm1 B)) (Z.of_nat (bm2 B)) (Z.of_nat (length v)) = true -> band_mul B v = Panic Guard) /\
+  (* accepts_band_mul_vec *)
+    (forall (A : Arith) (B : banded A) (v : list A),
+     Banded.wfB B ->
+     g_band_mul_vec (Z.of_nat (bn B)) (Z.of_nat (bm1 B)) (Z.of_nat (bm2 B)) (Z.of_nat (length v)) = false ->
+     exists w : list A, band_mul B v = Ok w /\ length w = bn B) /\
+  (* rejects_band_solve *)
+    (forall (A : Arith) (B : banded A) (b : list A),
+     g_band_solve (Z.of_nat (bn B)) (Z.of_nat (bm1 B)) (Z.of_nat (bm2 B)) (Z.of_nat (length b)) = true -> band_solve B b = Panic Guard) /\
+  (* accepts_band_solve *)
+    (forall A : Arith,
+     FieldLaws A ->
+     forall (B : banded A) (b : list A),
+     Banded.wfB B ->
+     g_band_solve (Z.of_nat (bn B)) (Z.of_nat (bm1 B)) (Z.of_nat (bm2 B)) (Z.of_nat (length b)) = false ->
+     (exists x : list A, band_solve B b = Ok x /\ length x = bn B) \/
+     bm1 B <= bn B /\ band_solve B b = Panic DivZero \/ bn B < bm1 B /\ band_solve B b = Panic Index) /\
+  (* accepts_band_solve_nonsingular *)
+    (forall A : Arith,
+     FieldLaws A ->
+     BandedComplete.PivotLaws A ->
+     forall (B : banded A) (b : list A),
+     Banded.wfB B ->
+     g_band_solve (Z.of_nat (bn B)) (Z.of_nat (bm1 B)) (Z.of_nat (bm2 B)) (Z.of_nat (length b)) = false ->
+     bm1 B <= bn B -> BandedComplete.trivial_kernel B -> exists x : list A, band_solve B b = Ok x).
+Proof. exact GuardsModelFamilies.entry_contract_banded_lemma. Qed.
+Check entry_contract_banded :
+  (* rejects_band_fill_band *)
+    (forall (A : Arith) (B : banded A) (band : Z) (x : A),
+     g_band_fill_band (Z.of_nat (bn B)) (Z.of_nat (bm1 B)) (Z.of_nat (bm2 B)) band = true -> band_fill_band B band x = Panic Guard) /\
+  (* accepts_band_fill_band *)
+    (forall (A : Arith) (B : banded A) (band : Z) (x : A),
+     Banded.wfB B ->
+     g_band_fill_band (Z.of_nat (bn B)) (Z.of_nat (bm1 B)) (Z.of_nat (bm2 B)) band = false -> exists B' : banded A, band_fill_band B band x = Ok B') /\
+  (* frame_band_fill_band *)
+    (forall (A : Arith) (B : banded A) (band : Z) (x : A) (B' : banded A),
+     Banded.wfB B ->
+     band_fill_band B band x = Ok B' ->
+     GuardsModelBand.same_sizes B' B /\
+     (forall i s : nat,
+      i < bn B -> s < bm1 B + bm2 B + 1 -> s <> Z.to_nat (Z.of_nat (bm1 B) + band) -> Matrix.entry (compact B') i s = Matrix.entry (compact B) i s)) /\
+  (* rejects_band_index *)
+    (forall (A : Arith) (B : banded A) (i j : nat),
+     g_band_index (Z.of_nat (bn B)) (Z.of_nat (bm1 B)) (Z.of_nat (bm2 B)) (Z.of_nat i) (Z.of_nat j) = true -> band_get B i j = Panic Guard) /\
+  (* accepts_band_index *)
+    (forall (A : Arith) (B : banded A) (i j : nat),
+     Banded.wfB B ->
+     i < bn B ->
+     g_band_index (Z.of_nat (bn B)) (Z.of_nat (bm1 B)) (Z.of_nat (bm2 B)) (Z.of_nat i) (Z.of_nat j) = false -> exists x : A, band_get B i j = Ok x) /\
+  (* rejects_band_index_mut *)
+    (forall (A : Arith) (B : banded A) (i j : nat) (x : A),
+     g_band_index_mut (Z.of_nat (bn B)) (Z.of_nat (bm1 B)) (Z.of_nat (bm2 B)) (Z.of_nat i) (Z.of_nat j) = true -> band_set B i j x = Panic Guard) /\
+  (* accepts_band_index_mut *)
+    (forall (A : Arith) (B : banded A) (i j : nat) (x : A),
+     Banded.wfB B ->
+     i < bn B ->
+     g_band_index_mut (Z.of_nat (bn B)) (Z.of_nat (bm1 B)) (Z.of_nat (bm2 B)) (Z.of_nat i) (Z.of_nat j) = false ->
+     exists B' : banded A, band_set B i j x = Ok B') /\
+  (* frame_band_index_mut *)
+    (forall (A : Arith) (B : banded A) (i j : nat) (x : A) (B' : banded A),
+     Banded.wfB B ->
+     i < bn B ->
+     band_set B i j x = Ok B' ->
+     GuardsModelBand.same_sizes B' B /\
+     (forall i' s : nat,
+      i' < bn B -> s < bm1 B + bm2 B + 1 -> (i', s) <> (i, band_slot (bm1 B) i j) -> Matrix.entry (compact B') i' s = Matrix.entry (compact B) i' s)) /\
+  (* rejects_band_add_ref *)
+    (forall (A : Arith) (B C : banded A),
+     g_band_add_ref (Z.of_nat (bn B)) (Z.of_nat (bm1 B)) (Z.of_nat (bm2 B)) (Z.of_nat (bn C)) (Z.of_nat (bm1 C)) (Z.of_nat (bm2 C)) = true ->
+     band_add B C = Panic Guard) /\
+  (* accepts_band_add_ref *)
+    (forall (A : Arith) (B C : banded A),
+     Banded.wfB B ->
+     Banded.wfB C ->
+     g_band_add_ref (Z.of_nat (bn B)) (Z.of_nat (bm1 B)) (Z.of_nat (bm2 B)) (Z.of_nat (bn C)) (Z.of_nat (bm1 C)) (Z.of_nat (bm2 C)) = false ->
+     exists R : banded A, band_add B C = Ok R /\ GuardsModelBand.same_sizes R B) /\
+  (* rejects_band_sub_ref *)
+    (forall (A : Arith) (B C : banded A),
+     g_band_sub_ref (Z.of_nat (bn B)) (Z.of_nat (bm1 B)) (Z.of_nat (bm2 B)) (Z.of_nat (bn C)) (Z.of_nat (bm1 C)) (Z.of_nat (bm2 C)) = true ->
+     band_sub B C = Panic Guard) /\
+  (* accepts_band_sub_ref *)
+    (forall (A : Arith) (B C : banded A),
+     Banded.wfB B ->
+     Banded.wfB C ->
+     g_band_sub_ref (Z.of_nat (bn B)) (Z.of_nat (bm1 B)) (Z.of_nat (bm2 B)) (Z.of_nat (bn C)) (Z.of_nat (bm1 C)) (Z.of_nat (bm2 C)) = false ->
+     exists R : banded A, band_sub B C = Ok R /\ GuardsModelBand.same_sizes R B) /\
+  (* rejects_band_add_assign_ref *)
+    (forall (A : Arith) (B C : banded A),
+     g_band_add_assign_ref (Z.of_nat (bn B)) (Z.of_nat (bm1 B)) (Z.of_nat (bm2 B)) (Z.of_nat (bn C)) (Z.of_nat (bm1 C)) (Z.of_nat (bm2 C)) = true ->
+     band_add_assign B C = Panic Guard) /\
+  (* accepts_band_add_assign_ref *)
+    (forall (A : Arith) (B C : banded A),
+     Banded.wfB B ->
+     Banded.wfB C ->
+     g_band_add_assign_ref (Z.of_nat (bn B)) (Z.of_nat (bm1 B)) (Z.of_nat (bm2 B)) (Z.of_nat (bn C)) (Z.of_nat (bm1 C)) (Z.of_nat (bm2 C)) = false ->
+     exists R : banded A, band_add_assign B C = Ok R /\ GuardsModelBand.same_sizes R B) /\
+  (* rejects_band_sub_assign_ref *)
+    (forall (A : Arith) (B C : banded A),
+     g_band_sub_assign_ref (Z.of_nat (bn B)) (Z.of_nat (bm1 B)) (Z.of_nat (bm2 B)) (Z.of_nat (bn C)) (Z.of_nat (bm1 C)) (Z.of_nat (bm2 C)) = true ->
+     band_sub_assign B C = Panic Guard) /\
+  (* accepts_band_sub_assign_ref *)
+    (forall (A : Arith) (B C : banded A),
+     Banded.wfB B ->
+     Banded.wfB C ->
+     g_band_sub_assign_ref (Z.of_nat (bn B)) (Z.of_nat (bm1 B)) (Z.of_nat (bm2 B)) (Z.of_nat (bn C)) (Z.of_nat (bm1 C)) (Z.of_nat (bm2 C)) = false ->
+     exists R : banded A, band_sub_assign B C = Ok R /\ GuardsModelBand.same_sizes R B) /\
+  (* rejects_band_mul_vec *)
+    (forall (A : Arith) (B : banded A) (v : list A),
+     g_band_mul_vec (Z.of_nat (bn B)) (Z.of_nat (bm1 B)) (Z.of_nat (bm2 B)) (Z.of_nat (length v)) = true -> band_mul B v = Panic Guard) /\
+  (* accepts_band_mul_vec *)
+    (forall (A : Arith) (B : banded A) (v : list A),
+     Banded.wfB B ->
+     g_band_mul_vec (Z.of_nat (bn B)) (Z.of_nat (bm1 B)) (Z.of_nat (bm2 B)) (Z.of_nat (length v)) = false ->
+     exists w : list A, band_mul B v = Ok w /\ length w = bn B) /\
+  (* rejects_band_solve *)
+    (forall (A : Arith) (B : banded A) (b : list A),
+     g_band_solve (Z.of_nat (bn B)) (Z.of_nat (bm1 B)) (Z.of_nat (bm2 B)) (Z.of_nat (length b)) = true -> band_solve B b = Panic Guard) /\
+  (* accepts_band_solve *)
+    (forall A : Arith,
+     FieldLaws A ->
+     forall (B : banded A) (b : list A),
+     Banded.wfB B ->
+     g_band_solve (Z.of_nat (bn B)) (Z.of_nat (bm1 B)) (Z.of_nat (bm2 B)) (Z.of_nat (length b)) = false ->
+     (exists x : list A, band_solve B b = Ok x /\ length x = bn B) \/
+     bm1 B <= bn B /\ band_solve B b = Panic DivZero \/ bn B < bm1 B /\ band_solve B b = Panic Index) /\
+  (* accepts_band_solve_nonsingular *)
+    (forall A : Arith,
+     FieldLaws A ->
+     BandedComplete.PivotLaws A ->
+     forall (B : banded A) (b : list A),
+     Banded.wfB B ->
+     g_band_solve (Z.of_nat (bn B)) (Z.of_nat (bm1 B)) (Z.of_nat (bm2 B)) (Z.of_nat (length b)) = false ->
+     bm1 B <= bn B -> BandedComplete.trivial_kernel B -> exists x : list A, band_solve B b = Ok x).
+Print Assumptions entry_contract_banded.
+(* non-vacuity on Banded::new(3, 1, 1, 1): (0,2) is outside the band and rejected; (2,3) is INSIDE the band test (j <= i + m2) although
+   column 3 does not exist: accepted, it addresses the padding slot of row 2; (3,3) passes the band test too and falls off the buffer --
+   the named precondition i < n of the acceptance half is necessary *)
+Example entry_contract_banded_nonvacuous :
+  let B : banded AQ := @band_new AQ 3 1 1 (q 1 1) in
+  Banded.wfB B /\
+  g_band_index 3 1 1 0 2 = true /\ panics_with Guard (band_get B 0 2) = true /\
+  g_band_index 3 1 1 2 3 = false /\ is_ok (band_get B 2 3) = true /\
+  g_band_index 3 1 1 3 3 = false /\ panics_with Index (band_get B 3 3) = true /\
+  g_band_index_mut 3 1 1 2 0 = true /\ panics_with Guard (band_set B 2 0 (q 5 1)) = true /\ is_ok (band_set B 2 1 (q 5 1)) = true /\
+  g_band_fill_band 3 1 1 (-2) = true /\ panics_with Guard (band_fill_band B (-2) (q 7 1)) = true /\ is_ok (band_fill_band B (-1) (q 7 1)) = true /\
+  g_band_mul_vec 3 1 1 2 = true /\ panics_with Guard (band_mul B [q 1 1; q 2 1]) = true /\ is_ok (band_mul B [q 1 1; q 2 1; q 3 1]) = true /\
+  g_band_add_ref 3 1 1 3 1 0 = true /\ panics_with Guard (band_add B (@band_new AQ 3 1 0 (q 1 1))) = true /\
+  g_band_solve 3 1 1 2 = true /\ panics_with Guard (band_solve B [q 1 1; q 2 1]) = true /\ is_ok (band_solve B [q 1 1; q 2 1; q 3 1]) = true.
+Proof. split; [apply Banded.band_new_wf|]. vm_compute. repeat split; reflexivity. Qed.
+
+(* ---- Tridiagonal (9 entries): with_vectors with_vecs convert solve index index_mut + - (matrix * vector); any arithmetic. ---- *)
+Theorem entry_contract_tridiagonal :
+  (* rejects_tri_with_vecs *)
+    (forall (A : Arith) (sub main sup : list A),
+     g_tri_with_vecs (Z.of_nat (length sub)) (Z.of_nat (length main)) (Z.of_nat (length sup)) = true ->
+     with_vecs sub main sup = Panic (if length main =? 0 then Underflow else Guard)) /\
+  (* accepts_tri_with_vecs *)
+    (forall (A : Arith) (sub main sup : list A),
+     g_tri_with_vecs (Z.of_nat (length sub)) (Z.of_nat (length main)) (Z.of_nat (length sup)) = false ->
+     exists t : tridiag A, with_vecs sub main sup = Ok t /\ Tridiag.wfT t /\ tn t = length main) /\
+  (* rejects_tri_with_vectors *)
+    (forall (A : Arith) (sub main sup : list A),
+     g_tri_with_vectors (Z.of_nat (length sub)) (Z.of_nat (length main)) (Z.of_nat (length sup)) = true ->
+     with_vectors sub main sup = Panic (if length main =? 0 then Underflow else Guard)) /\
+  (* accepts_tri_with_vectors *)
+    (forall (A : Arith) (sub main sup : list A),
+     g_tri_with_vectors (Z.of_nat (length sub)) (Z.of_nat (length main)) (Z.of_nat (length sup)) = false ->
+     exists t : tridiag A, with_vectors sub main sup = Ok t /\ Tridiag.wfT t /\ tn t = length main) /\
+  (* rejects_tri_convert *)
+    (forall (A : Arith) (t : tridiag A), g_tri_convert (Z.of_nat (tn t)) = true -> tconvert t = Panic Guard) /\
+  (* accepts_tri_convert *)
+    (forall (A : Arith) (t : tridiag A),
+     Tridiag.wfT t ->
+     g_tri_convert (Z.of_nat (tn t)) = false -> exists m : matrix A, tconvert t = Ok m /\ Tridiag.wfM m /\ rows m = tn t /\ cols m = tn t) /\
+  (* rejects_tri_index *)
+    (forall (A : Arith) (t : tridiag A) (i j : nat), g_tri_index (Z.of_nat (tn t)) (Z.of_nat i) (Z.of_nat j) = true -> tindex t i j = Panic Guard) /\
+  (* accepts_tri_index *)
+    (forall (A : Arith) (t : tridiag A) (i j : nat),
+     Tridiag.wfT t -> g_tri_index (Z.of_nat (tn t)) (Z.of_nat i) (Z.of_nat j) = false -> exists x : A, tindex t i j = Ok x) /\
+  (* rejects_tri_index_mut *)
+    (forall (A : Arith) (t : tridiag A) (i j : nat) (x : A),
+     g_tri_index_mut (Z.of_nat (tn t)) (Z.of_nat i) (Z.of_nat j) = true -> tset t i j x = Panic Guard) /\
+  (* accepts_tri_index_mut *)
+    (forall (A : Arith) (t : tridiag A) (i j : nat) (x : A),
+     Tridiag.wfT t -> g_tri_index_mut (Z.of_nat (tn t)) (Z.of_nat i) (Z.of_nat j) = false -> exists t' : tridiag A, tset t i j x = Ok t') /\
+  (* frame_tri_index_mut *)
+    (forall (A : Arith) (t : tridiag A) (i j : nat) (x : A) (t' : tridiag A),
+     Tridiag.wfT t ->
+     tset t i j x = Ok t' ->
+     Tridiag.wfT t' /\ tn t' = tn t /\ (forall p q : nat, p < tn t -> q < tn t -> (p, q) <> (i, j) -> dense t' p q = dense t p q)) /\
+  (* rejects_tri_add *)
+    (forall (A : Arith) (a b : tridiag A), g_tri_add (Z.of_nat (tn a)) (Z.of_nat (tn b)) = true -> tadd a b = Panic Guard) /\
+  (* rejects_tri_sub *)
+    (forall (A : Arith) (a b : tridiag A), g_tri_sub (Z.of_nat (tn a)) (Z.of_nat (tn b)) = true -> tminus a b = Panic Guard) /\
+  (* accepts_tri_add *)
+    (forall (A : Arith) (a b : tridiag A),
+     Tridiag.wfT a ->
+     Tridiag.wfT b ->
+     g_tri_add (Z.of_nat (tn a)) (Z.of_nat (tn b)) = false -> exists c : tridiag A, tadd a b = Ok c /\ Tridiag.wfT c /\ tn c = tn a) /\
+  (* accepts_tri_sub *)
+    (forall (A : Arith) (a b : tridiag A),
+     Tridiag.wfT a ->
+     Tridiag.wfT b ->
+     g_tri_sub (Z.of_nat (tn a)) (Z.of_nat (tn b)) = false -> exists c : tridiag A, tminus a b = Ok c /\ Tridiag.wfT c /\ tn c = tn a) /\
+  (* rejects_tri_mul_vec *)
+    (forall (A : Arith) (t : tridiag A) (v : list A), g_tri_mul_vec (Z.of_nat (tn t)) (Z.of_nat (length v)) = true -> tmul t v = Panic Guard) /\
+  (* accepts_tri_mul_vec *)
+    (forall (A : Arith) (t : tridiag A) (v : list A),
+     Tridiag.wfT t ->
+     1 <= tn t -> g_tri_mul_vec (Z.of_nat (tn t)) (Z.of_nat (length v)) = false -> exists w : list A, tmul t v = Ok w /\ length w = tn t) /\
+  (* rejects_tri_solve *)
+    (forall (A : Arith) (t : tridiag A) (r : list A), g_tri_solve (Z.of_nat (tn t)) (Z.of_nat (length r)) = true -> tsolve t r = Panic Guard) /\
+  (* accepts_tri_solve *)
+    (forall (A : Arith) (t : tridiag A) (r : list A),
+     (forall x y : A, eqb y zero = false -> exists z : A, div x y = Ok z) ->
+     Tridiag.wfT t ->
+     1 <= tn t ->
+     g_tri_solve (Z.of_nat (tn t)) (Z.of_nat (length r)) = false ->
+     (exists u : list A, tsolve t r = Ok u /\ length u = tn t) \/ tsolve t r = Panic Guard) /\
+  (* accepts_tri_solve_field *)
+    (forall A : Arith,
+     FieldLaws A ->
+     forall (t : tridiag A) (r : list A),
+     Tridiag.wfT t ->
+     1 <= tn t ->
+     g_tri_solve (Z.of_nat (tn t)) (Z.of_nat (length r)) = false ->
+     (exists u : list A, tsolve t r = Ok u /\ length u = tn t /\ (forall k : nat, k < tn t -> exists p : A, thomas_pivot t k = Ok p /\ p <> zero)) \/
+     tsolve t r = Panic Guard /\ (exists k : nat, k < tn t /\ thomas_pivot t k = Ok zero)).
+Proof. exact GuardsModelFamilies.entry_contract_tridiagonal_lemma. Qed.
+Check entry_contract_tridiagonal :
+  (* rejects_tri_with_vecs *)
+    (forall (A : Arith) (sub main sup : list A),
+     g_tri_with_vecs (Z.of_nat (length sub)) (Z.of_nat (length main)) (Z.of_nat (length sup)) = true ->
+     with_vecs sub main sup = Panic (if length main =? 0 then Underflow else Guard)) /\
+  (* accepts_tri_with_vecs *)
+    (forall (A : Arith) (sub main sup : list A),
+     g_tri_with_vecs (Z.of_nat (length sub)) (Z.of_nat (length main)) (Z.of_nat (length sup)) = false ->
+     exists t : tridiag A, with_vecs sub main sup = Ok t /\ Tridiag.wfT t /\ tn t = length main) /\
+  (* rejects_tri_with_vectors *)
+    (forall (A : Arith) (sub main sup : list A),
+     g_tri_with_vectors (Z.of_nat (length sub)) (Z.of_nat (length main)) (Z.of_nat (length sup)) = true ->
+     with_vectors sub main sup = Panic (if length main =? 0 then Underflow else Guard)) /\
+  (* accepts_tri_with_vectors *)
+    (forall (A : Arith) (sub main sup : list A),
+     g_tri_with_vectors (Z.of_nat (length sub)) (Z.of_nat (length main)) (Z.of_nat (length sup)) = false ->
+     exists t : tridiag A, with_vectors sub main sup = Ok t /\ Tridiag.wfT t /\ tn t = length main) /\
+  (* rejects_tri_convert *)
+    (forall (A : Arith) (t : tridiag A), g_tri_convert (Z.of_nat (tn t)) = true -> tconvert t = Panic Guard) /\
+  (* accepts_tri_convert *)
+    (forall (A : Arith) (t : tridiag A),
+     Tridiag.wfT t ->
+     g_tri_convert (Z.of_nat (tn t)) = false -> exists m : matrix A, tconvert t = Ok m /\ Tridiag.wfM m /\ rows m = tn t /\ cols m = tn t) /\
+  (* rejects_tri_index *)
+    (forall (A : Arith) (t : tridiag A) (i j : nat), g_tri_index (Z.of_nat (tn t)) (Z.of_nat i) (Z.of_nat j) = true -> tindex t i j = Panic Guard) /\
+  (* accepts_tri_index *)
+    (forall (A : Arith) (t : tridiag A) (i j : nat),
+     Tridiag.wfT t -> g_tri_index (Z.of_nat (tn t)) (Z.of_nat i) (Z.of_nat j) = false -> exists x : A, tindex t i j = Ok x) /\
+  (* rejects_tri_index_mut *)
+    (forall (A : Arith) (t : tridiag A) (i j : nat) (x : A),
+     g_tri_index_mut (Z.of_nat (tn t)) (Z.of_nat i) (Z.of_nat j) = true -> tset t i j x = Panic Guard) /\
+  (* accepts_tri_index_mut *)
+    (forall (A : Arith) (t : tridiag A) (i j : nat) (x : A),
+     Tridiag.wfT t -> g_tri_index_mut (Z.of_nat (tn t)) (Z.of_nat i) (Z.of_nat j) = false -> exists t' : tridiag A, tset t i j x = Ok t') /\
+  (* frame_tri_index_mut *)
+    (forall (A : Arith) (t : tridiag A) (i j : nat) (x : A) (t' : tridiag A),
+     Tridiag.wfT t ->
+     tset t i j x = Ok t' ->
+     Tridiag.wfT t' /\ tn t' = tn t /\ (forall p q : nat, p < tn t -> q < tn t -> (p, q) <> (i, j) -> dense t' p q = dense t p q)) /\
+  (* rejects_tri_add *)
+    (forall (A : Arith) (a b : tridiag A), g_tri_add (Z.of_nat (tn a)) (Z.of_nat (tn b)) = true -> tadd a b = Panic Guard) /\
+  (* rejects_tri_sub *)
+    (forall (A : Arith) (a b : tridiag A), g_tri_sub (Z.of_nat (tn a)) (Z.of_nat (tn b)) = true -> tminus a b = Panic Guard) /\
+  (* accepts_tri_add *)
+    (forall (A : Arith) (a b : tridiag A),
+     Tridiag.wfT a ->
+     Tridiag.wfT b ->
+     g_tri_add (Z.of_nat (tn a)) (Z.of_nat (tn b)) = false -> exists c : tridiag A, tadd a b = Ok c /\ Tridiag.wfT c /\ tn c = tn a) /\
+  (* accepts_tri_sub *)
+    (forall (A : Arith) (a b : tridiag A),
+     Tridiag.wfT a ->
+     Tridiag.wfT b ->
+     g_tri_sub (Z.of_nat (tn a)) (Z.of_nat (tn b)) = false -> exists c : tridiag A, tminus a b = Ok c /\ Tridiag.wfT c /\ tn c = tn a) /\
+  (* rejects_tri_mul_vec *)
+    (forall (A : Arith) (t : tridiag A) (v : list A), g_tri_mul_vec (Z.of_nat (tn t)) (Z.of_nat (length v)) = true -> tmul t v = Panic Guard) /\
+  (* accepts_tri_mul_vec *)
+    (forall (A : Arith) (t : tridiag A) (v : list A),
+     Tridiag.wfT t ->
+     1 <= tn t -> g_tri_mul_vec (Z.of_nat (tn t)) (Z.of_nat (length v)) = false -> exists w : list A, tmul t v = Ok w /\ length w = tn t) /\
+  (* rejects_tri_solve *)
+    (forall (A : Arith) (t : tridiag A) (r : list A), g_tri_solve (Z.of_nat (tn t)) (Z.of_nat (length r)) = true -> tsolve t r = Panic Guard) /\
+  (* accepts_tri_solve *)
+    (forall (A : Arith) (t : tridiag A) (r : list A),
+     (forall x y : A, eqb y zero = false -> exists z : A, div x y = Ok z) ->
+     Tridiag.wfT t ->
+     1 <= tn t ->
+     g_tri_solve (Z.of_nat (tn t)) (Z.of_nat (length r)) = false ->
+     (exists u : list A, tsolve t r = Ok u /\ length u = tn t) \/ tsolve t r = Panic Guard) /\
+  (* accepts_tri_solve_field *)
+    (forall A : Arith,
+     FieldLaws A ->
+     forall (t : tridiag A) (r : list A),
+     Tridiag.wfT t ->
+     1 <= tn t ->
+     g_tri_solve (Z.of_nat (tn t)) (Z.of_nat (length r)) = false ->
+     (exists u : list A, tsolve t r = Ok u /\ length u = tn t /\ (forall k : nat, k < tn t -> exists p : A, thomas_pivot t k = Ok p /\ p <> zero)) \/
+     tsolve t r = Panic Guard /\ (exists k : nat, k < tn t /\ thomas_pivot t k = Ok zero)).
+Print Assumptions entry_contract_tridiagonal.
+(* non-vacuity: an empty main diagonal is refused by the checked `n - 1` (Underflow), a short sub-diagonal by the guard; on the 3x3 matrix
+   [[1,2,0],[3,4,5],[0,6,7]] entry (2,0) is rejected for read and write, (2,1) accepted; a zero leading entry is the data-dependent refusal *)
+Example entry_contract_tridiagonal_nonvacuous :
+  let t : tridiag AQ := @mkT AQ [q 3 1; q 6 1] [q 1 1; q 4 1; q 7 1] [q 2 1; q 5 1] 3 in
+  let z : tridiag AQ := @mkT AQ [q 3 1] [q 0 1; q 4 1] [q 2 1] 2 in
+  Tridiag.wfT t /\
+  g_tri_with_vecs 0 0 0 = true /\ panics_with Underflow (with_vecs (A := AQ) [] [] []) = true /\
+  g_tri_with_vecs 0 2 1 = true /\ panics_with Guard (with_vecs (A := AQ) [] [q 1 1; q 2 1] [q 3 1]) = true /\
+  g_tri_with_vecs 1 2 1 = false /\ is_ok (with_vecs (A := AQ) [q 5 1] [q 1 1; q 2 1] [q 3 1]) = true /\
+  g_tri_index 3 2 0 = true /\ panics_with Guard (tindex t 2 0) = true /\ panics_with Guard (tset t 2 0 (q 9 1)) = true /\
+  g_tri_index_mut 3 2 1 = false /\ is_ok (tset t 2 1 (q 9 1)) = true /\
+  g_tri_mul_vec 3 2 = true /\ panics_with Guard (tmul t [q 1 1; q 2 1]) = true /\ is_ok (tmul t [q 1 1; q 2 1; q 3 1]) = true /\
+  g_tri_solve 3 2 = true /\ panics_with Guard (tsolve t [q 1 1; q 2 1]) = true /\ is_ok (tsolve t [q 1 1; q 2 1; q 3 1]) = true /\
+  g_tri_solve 2 2 = false /\ panics_with Guard (tsolve z [q 1 1; q 2 1]) = true /\
+  g_tri_convert 0 = true /\ panics_with Guard (tconvert (A := AQ) tempty) = true /\ is_ok (tconvert t) = true.
+Proof. split; [unfold Tridiag.wfT; cbn; auto|]. vm_compute. repeat split; reflexivity. Qed.
+
+(* ---- Sparse, structural (5 entries): from_triplets (guard per triplet) get insert multiply transpose_multiply; no law of the element type. ---- *)
+Theorem entry_contract_sparse :
+  (* rejects_sp_from_triplets *)
+    (forall (A : Arith) (r c : nat) (ts : list (triplet A)),
+     (exists t : triplet A, In t ts /\ g_sp_from_triplets (Z.of_nat r) (Z.of_nat c) (Z.of_nat (trow t)) (Z.of_nat (tcol t)) = true) ->
+     sp_from_triplets r c ts = Panic Guard) /\
+  (* accepts_sp_from_triplets *)
+    (forall (A : Arith) (r c : nat) (ts : list (triplet A)),
+     (forall t : triplet A, In t ts -> g_sp_from_triplets (Z.of_nat r) (Z.of_nat c) (Z.of_nat (trow t)) (Z.of_nat (tcol t)) = false) ->
+     exists s : sparse A, sp_from_triplets r c ts = Ok s /\ SparseBase.wfS s /\ sp_rows s = r /\ sp_cols s = c) /\
+  (* rejects_sp_get *)
+    (forall (A : Arith) (s : sparse A) (row col : nat),
+     g_sp_get (Z.of_nat (sp_rows s)) (Z.of_nat (sp_cols s)) (Z.of_nat row) (Z.of_nat col) = true -> sp_get s row col = Panic Guard) /\
+  (* accepts_sp_get *)
+    (forall (A : Arith) (s : sparse A) (row col : nat),
+     SparseBase.wfS s ->
+     g_sp_get (Z.of_nat (sp_rows s)) (Z.of_nat (sp_cols s)) (Z.of_nat row) (Z.of_nat col) = false -> exists o : option A, sp_get s row col = Ok o) /\
+  (* rejects_sp_insert *)
+    (forall (A : Arith) (s : sparse A) (row col : nat) (v : A),
+     g_sp_insert (Z.of_nat (sp_rows s)) (Z.of_nat (sp_cols s)) (Z.of_nat row) (Z.of_nat col) = true -> sp_insert s row col v = Panic Guard) /\
+  (* accepts_sp_insert *)
+    (forall (A : Arith) (s : sparse A) (row col : nat) (v : A),
+     SparseBase.wfS s ->
+     g_sp_insert (Z.of_nat (sp_rows s)) (Z.of_nat (sp_cols s)) (Z.of_nat row) (Z.of_nat col) = false ->
+     exists s' : sparse A, sp_insert s row col v = Ok s' /\ SparseBase.wfS s' /\ sp_rows s' = sp_rows s /\ sp_cols s' = sp_cols s) /\
+  (* frame_sp_insert *)
+    (forall (A : Arith) (s : sparse A) (row col : nat) (v : A) (s' : sparse A),
+     SparseBase.wfS s ->
+     SparseBase.NoDupKeys s ->
+     sp_insert s row col v = Ok s' ->
+     SparseBase.wfS s' /\
+     SparseBase.NoDupKeys s' /\
+     sp_rows s' = sp_rows s /\
+     sp_cols s' = sp_cols s /\
+     sp_get s' row col = Ok (Some v) /\ (forall i j : nat, i < sp_rows s -> j < sp_cols s -> (i, j) <> (row, col) -> sp_get s' i j = sp_get s i j)) /\
+  (* rejects_sp_multiply *)
+    (forall (A : Arith) (s : sparse A) (x : list A),
+     g_sp_multiply (Z.of_nat (sp_rows s)) (Z.of_nat (sp_cols s)) (Z.of_nat (length x)) = true -> sp_mul s x = Panic Guard) /\
+  (* accepts_sp_multiply *)
+    (forall (A : Arith) (s : sparse A) (x : list A),
+     SparseBase.wfS s ->
+     g_sp_multiply (Z.of_nat (sp_rows s)) (Z.of_nat (sp_cols s)) (Z.of_nat (length x)) = false ->
+     exists y : list A, sp_mul s x = Ok y /\ length y = sp_rows s) /\
+  (* rejects_sp_transpose_multiply *)
+    (forall (A : Arith) (s : sparse A) (x : list A),
+     g_sp_transpose_multiply (Z.of_nat (sp_rows s)) (Z.of_nat (sp_cols s)) (Z.of_nat (length x)) = true -> sp_tmul s x = Panic Guard) /\
+  (* accepts_sp_transpose_multiply *)
+    (forall (A : Arith) (s : sparse A) (x : list A),
+     SparseBase.wfS s ->
+     g_sp_transpose_multiply (Z.of_nat (sp_rows s)) (Z.of_nat (sp_cols s)) (Z.of_nat (length x)) = false ->
+     exists y : list A, sp_tmul s x = Ok y /\ length y = sp_cols s).
+Proof. exact GuardsModelFamilies.entry_contract_sparse_lemma. Qed.
+Check entry_contract_sparse :
+  (* rejects_sp_from_triplets *)
+    (forall (A : Arith) (r c : nat) (ts : list (triplet A)),
+     (exists t : triplet A, In t ts /\ g_sp_from_triplets (Z.of_nat r) (Z.of_nat c) (Z.of_nat (trow t)) (Z.of_nat (tcol t)) = true) ->
+     sp_from_triplets r c ts = Panic Guard) /\
+  (* accepts_sp_from_triplets *)
+    (forall (A : Arith) (r c : nat) (ts : list (triplet A)),
+     (forall t : triplet A, In t ts -> g_sp_from_triplets (Z.of_nat r) (Z.of_nat c) (Z.of_nat (trow t)) (Z.of_nat (tcol t)) = false) ->
+     exists s : sparse A, sp_from_triplets r c ts = Ok s /\ SparseBase.wfS s /\ sp_rows s = r /\ sp_cols s = c) /\
+  (* rejects_sp_get *)
+    (forall (A : Arith) (s : sparse A) (row col : nat),
+     g_sp_get (Z.of_nat (sp_rows s)) (Z.of_nat (sp_cols s)) (Z.of_nat row) (Z.of_nat col) = true -> sp_get s row col = Panic Guard) /\
+  (* accepts_sp_get *)
+    (forall (A : Arith) (s : sparse A) (row col : nat),
+     SparseBase.wfS s ->
+     g_sp_get (Z.of_nat (sp_rows s)) (Z.of_nat (sp_cols s)) (Z.of_nat row) (Z.of_nat col) = false -> exists o : option A, sp_get s row col = Ok o) /\
+  (* rejects_sp_insert *)
+    (forall (A : Arith) (s : sparse A) (row col : nat) (v : A),
+     g_sp_insert (Z.of_nat (sp_rows s)) (Z.of_nat (sp_cols s)) (Z.of_nat row) (Z.of_nat col) = true -> sp_insert s row col v = Panic Guard) /\
+  (* accepts_sp_insert *)
+    (forall (A : Arith) (s : sparse A) (row col : nat) (v : A),
+     SparseBase.wfS s ->
+     g_sp_insert (Z.of_nat (sp_rows s)) (Z.of_nat (sp_cols s)) (Z.of_nat row) (Z.of_nat col) = false ->
+     exists s' : sparse A, sp_insert s row col v = Ok s' /\ SparseBase.wfS s' /\ sp_rows s' = sp_rows s /\ sp_cols s' = sp_cols s) /\
+  (* frame_sp_insert *)
+    (forall (A : Arith) (s : sparse A) (row col : nat) (v : A) (s' : sparse A),
+     SparseBase.wfS s ->
+     SparseBase.NoDupKeys s ->
+     sp_insert s row col v = Ok s' ->
+     SparseBase.wfS s' /\
+     SparseBase.NoDupKeys s' /\
+     sp_rows s' = sp_rows s /\
+     sp_cols s' = sp_cols s /\
+     sp_get s' row col = Ok (Some v) /\ (forall i j : nat, i < sp_rows s -> j < sp_cols s -> (i, j) <> (row, col) -> sp_get s' i j = sp_get s i j)) /\
+  (* rejects_sp_multiply *)
+    (forall (A : Arith) (s : sparse A) (x : list A),
+     g_sp_multiply (Z.of_nat (sp_rows s)) (Z.of_nat (sp_cols s)) (Z.of_nat (length x)) = true -> sp_mul s x = Panic Guard) /\
+  (* accepts_sp_multiply *)
+    (forall (A : Arith) (s : sparse A) (x : list A),
+     SparseBase.wfS s ->
+     g_sp_multiply (Z.of_nat (sp_rows s)) (Z.of_nat (sp_cols s)) (Z.of_nat (length x)) = false ->
+     exists y : list A, sp_mul s x = Ok y /\ length y = sp_rows s) /\
+  (* rejects_sp_transpose_multiply *)
+    (forall (A : Arith) (s : sparse A) (x : list A),
+     g_sp_transpose_multiply (Z.of_nat (sp_rows s)) (Z.of_nat (sp_cols s)) (Z.of_nat (length x)) = true -> sp_tmul s x = Panic Guard) /\
+  (* accepts_sp_transpose_multiply *)
+    (forall (A : Arith) (s : sparse A) (x : list A),
+     SparseBase.wfS s ->
+     g_sp_transpose_multiply (Z.of_nat (sp_rows s)) (Z.of_nat (sp_cols s)) (Z.of_nat (length x)) = false ->
+     exists y : list A, sp_tmul s x = Ok y /\ length y = sp_cols s).
+Print Assumptions entry_contract_sparse.
+(* non-vacuity: four triplets of a 3x4 matrix, not in column order; one out-of-range triplet anywhere in the list rejects the construction *)
+Example entry_contract_sparse_nonvacuous :
+  let ts : list (triplet AQ) := [(2, 3, q 5 3); (0, 1, q (-1) 2); (1, 2, q 7 1); (2, 1, q 2 1)] in
+  (forall t, In t ts -> g_sp_from_triplets 3 4 (Z.of_nat (trow t)) (Z.of_nat (tcol t)) = false) /\
+  g_sp_from_triplets 3 4 3 0 = true /\ panics_with Guard (sp_from_triplets (A := AQ) 3 4 ((1, 1, q 1 1) :: (3, 0, q 1 1) :: ts)) = true /\
+  match sp_from_triplets 3 4 ts with
+  | Ok s => is_ok (sp_get s 2 3) = true /\ panics_with Guard (sp_get s 3 0) = true /\ panics_with Guard (sp_get s 0 4) = true /\
+            is_ok (sp_insert s 1 0 (q 9 1)) = true /\ panics_with Guard (sp_insert s 1 4 (q 9 1)) = true /\
+            panics_with Guard (sp_mul s [q 1 1; q 2 1; q 3 1]) = true /\ is_ok (sp_mul s [q 1 1; q 2 1; q 3 1; q 4 1]) = true /\
+            panics_with Guard (sp_tmul s [q 1 1; q 2 1; q 3 1; q 4 1]) = true /\ is_ok (sp_tmul s [q 1 1; q 2 1; q 3 1]) = true
+  | Panic _ => False
+  end /\
+  g_sp_get 3 4 3 0 = true /\ g_sp_insert 3 4 1 4 = true /\ g_sp_multiply 3 4 3 = true /\ g_sp_transpose_multiply 3 4 4 = true.
+Proof.
+  split.
+  { intros t Ht. cbn [In] in Ht. repeat (destruct Ht as [<-|Ht]; [vm_compute; reflexivity|]). destruct Ht. }
+  vm_compute. repeat split; reflexivity.
+Qed.
+
+(* ---- Sparse, iterative solvers (4 entries): solve_cg solve_bicg solve_bicgstab solve_qmr.  Rejection: for ANY operator (the size guards come first;
+   bicg's itol test after the first product: for the CSC products of a well-formed receiver).  Acceptance: for every budget and tolerance the only
+   panic is one raised by the arithmetic's own division (Kd: = DivZero on the exact types, empty for f64 -- then the solver always returns). ---- *)
+Theorem entry_contract_solvers :
+  (* rejects_sp_solve_cg *)
+    (forall (S : SArith) (mulA : list S -> res (list S)) (rows cols : nat) (b x : list S) (n : nat) (tol : S),
+     g_sp_solve_cg (Z.of_nat rows) (Z.of_nat cols) (Z.of_nat (length b)) (Z.of_nat (length x)) = true ->
+     solve_cg mulA rows cols b x n tol = Panic Guard) /\
+  (* rejects_sp_solve_bicgstab *)
+    (forall (S : SArith) (mulA : list S -> res (list S)) (rows cols : nat) (b x : list S) (n : nat) (tol : S),
+     g_sp_solve_bicgstab (Z.of_nat rows) (Z.of_nat cols) (Z.of_nat (length b)) (Z.of_nat (length x)) = true ->
+     solve_bicgstab mulA rows cols b x n tol = Panic Guard) /\
+  (* rejects_sp_solve_qmr *)
+    (forall (S : SArith) (mulA mulAT : list S -> res (list S)) (rows cols : nat) (b x : list S) (n : nat) (tol : S),
+     g_sp_solve_qmr (Z.of_nat rows) (Z.of_nat cols) (Z.of_nat (length b)) (Z.of_nat (length x)) = true ->
+     solve_qmr mulA mulAT rows cols b x n tol = Panic Guard) /\
+  (* rejects_sp_solve_bicg *)
+    (forall (S : SArith) (s : sparse S) (itol : nat) (b x : list S) (n : nat) (tol : S),
+     SparseBase.wfS s ->
+     g_sp_solve_bicg (Z.of_nat (sp_rows s)) (Z.of_nat (sp_cols s)) (Z.of_nat (length b)) (Z.of_nat (length x)) (Z.of_nat itol) = true ->
+     solve_bicg (sp_mul s) (sp_tmul s) (sp_rows s) (sp_cols s) itol b x n tol = Panic Guard) /\
+  (* accepts_sp_solve_cg *)
+    (forall (S : SArith) (Kd : pkind -> Prop),
+     (forall (x y : S) (k : pkind), div x y = Panic k -> Kd k) ->
+     forall (s : sparse S) (b x : list S) (max : nat) (tol : S),
+     SparseBase.wfS s ->
+     g_sp_solve_cg (Z.of_nat (sp_rows s)) (Z.of_nat (sp_cols s)) (Z.of_nat (length b)) (Z.of_nat (length x)) = false ->
+     forall k : pkind, solve_cg (sp_mul s) (sp_rows s) (sp_cols s) b x max tol = Panic k -> Kd k) /\
+  (* accepts_sp_solve_bicgstab *)
+    (forall (S : SArith) (Kd : pkind -> Prop),
+     (forall (x y : S) (k : pkind), div x y = Panic k -> Kd k) ->
+     forall (s : sparse S) (b x : list S) (max : nat) (tol : S),
+     SparseBase.wfS s ->
+     g_sp_solve_bicgstab (Z.of_nat (sp_rows s)) (Z.of_nat (sp_cols s)) (Z.of_nat (length b)) (Z.of_nat (length x)) = false ->
+     forall k : pkind, solve_bicgstab (sp_mul s) (sp_rows s) (sp_cols s) b x max tol = Panic k -> Kd k) /\
+  (* accepts_sp_solve_qmr *)
+    (forall (S : SArith) (Kd : pkind -> Prop),
+     (forall (x y : S) (k : pkind), div x y = Panic k -> Kd k) ->
+     forall (s : sparse S) (b x : list S) (max : nat) (tol : S),
+     SparseBase.wfS s ->
+     g_sp_solve_qmr (Z.of_nat (sp_rows s)) (Z.of_nat (sp_cols s)) (Z.of_nat (length b)) (Z.of_nat (length x)) = false ->
+     forall k : pkind, solve_qmr (sp_mul s) (sp_tmul s) (sp_rows s) (sp_cols s) b x max tol = Panic k -> Kd k) /\
+  (* accepts_sp_solve_bicg *)
+    (forall (S : SArith) (Kd : pkind -> Prop),
+     (forall (x y : S) (k : pkind), div x y = Panic k -> Kd k) ->
+     forall (s : sparse S) (itol : nat) (b x : list S) (max : nat) (tol : S),
+     SparseBase.wfS s ->
+     g_sp_solve_bicg (Z.of_nat (sp_rows s)) (Z.of_nat (sp_cols s)) (Z.of_nat (length b)) (Z.of_nat (length x)) (Z.of_nat itol) = false ->
+     forall k : pkind, solve_bicg (sp_mul s) (sp_tmul s) (sp_rows s) (sp_cols s) itol b x max tol = Panic k -> Kd k).
+Proof. exact GuardsModelFamilies.entry_contract_solvers_lemma. Qed.
+Check entry_contract_solvers :
+  (* rejects_sp_solve_cg *)
+    (forall (S : SArith) (mulA : list S -> res (list S)) (rows cols : nat) (b x : list S) (n : nat) (tol : S),
+     g_sp_solve_cg (Z.of_nat rows) (Z.of_nat cols) (Z.of_nat (length b)) (Z.of_nat (length x)) = true ->
+     solve_cg mulA rows cols b x n tol = Panic Guard) /\
+  (* rejects_sp_solve_bicgstab *)
+    (forall (S : SArith) (mulA : list S -> res (list S)) (rows cols : nat) (b x : list S) (n : nat) (tol : S),
+     g_sp_solve_bicgstab (Z.of_nat rows) (Z.of_nat cols) (Z.of_nat (length b)) (Z.of_nat (length x)) = true ->
+     solve_bicgstab mulA rows cols b x n tol = Panic Guard) /\
+  (* rejects_sp_solve_qmr *)
+    (forall (S : SArith) (mulA mulAT : list S -> res (list S)) (rows cols : nat) (b x : list S) (n : nat) (tol : S),
+     g_sp_solve_qmr (Z.of_nat rows) (Z.of_nat cols) (Z.of_nat (length b)) (Z.of_nat (length x)) = true ->
+     solve_qmr mulA mulAT rows cols b x n tol = Panic Guard) /\
+  (* rejects_sp_solve_bicg *)
+    (forall (S : SArith) (s : sparse S) (itol : nat) (b x : list S) (n : nat) (tol : S),
+     SparseBase.wfS s ->
+     g_sp_solve_bicg (Z.of_nat (sp_rows s)) (Z.of_nat (sp_cols s)) (Z.of_nat (length b)) (Z.of_nat (length x)) (Z.of_nat itol) = true ->
+     solve_bicg (sp_mul s) (sp_tmul s) (sp_rows s) (sp_cols s) itol b x n tol = Panic Guard) /\
+  (* accepts_sp_solve_cg *)
+    (forall (S : SArith) (Kd : pkind -> Prop),
+     (forall (x y : S) (k : pkind), div x y = Panic k -> Kd k) ->
+     forall (s : sparse S) (b x : list S) (max : nat) (tol : S),
+     SparseBase.wfS s ->
+     g_sp_solve_cg (Z.of_nat (sp_rows s)) (Z.of_nat (sp_cols s)) (Z.of_nat (length b)) (Z.of_nat (length x)) = false ->
+     forall k : pkind, solve_cg (sp_mul s) (sp_rows s) (sp_cols s) b x max tol = Panic k -> Kd k) /\
+  (* accepts_sp_solve_bicgstab *)
+    (forall (S : SArith) (Kd : pkind -> Prop),
+     (forall (x y : S) (k : pkind), div x y = Panic k -> Kd k) ->
+     forall (s : sparse S) (b x : list S) (max : nat) (tol : S),
+     SparseBase.wfS s ->
+     g_sp_solve_bicgstab (Z.of_nat (sp_rows s)) (Z.of_nat (sp_cols s)) (Z.of_nat (length b)) (Z.of_nat (length x)) = false ->
+     forall k : pkind, solve_bicgstab (sp_mul s) (sp_rows s) (sp_cols s) b x max tol = Panic k -> Kd k) /\
+  (* accepts_sp_solve_qmr *)
+    (forall (S : SArith) (Kd : pkind -> Prop),
+     (forall (x y : S) (k : pkind), div x y = Panic k -> Kd k) ->
+     forall (s : sparse S) (b x : list S) (max : nat) (tol : S),
+     SparseBase.wfS s ->
+     g_sp_solve_qmr (Z.of_nat (sp_rows s)) (Z.of_nat (sp_cols s)) (Z.of_nat (length b)) (Z.of_nat (length x)) = false ->
+     forall k : pkind, solve_qmr (sp_mul s) (sp_tmul s) (sp_rows s) (sp_cols s) b x max tol = Panic k -> Kd k) /\
+  (* accepts_sp_solve_bicg *)
+    (forall (S : SArith) (Kd : pkind -> Prop),
+     (forall (x y : S) (k : pkind), div x y = Panic k -> Kd k) ->
+     forall (s : sparse S) (itol : nat) (b x : list S) (max : nat) (tol : S),
+     SparseBase.wfS s ->
+     g_sp_solve_bicg (Z.of_nat (sp_rows s)) (Z.of_nat (sp_cols s)) (Z.of_nat (length b)) (Z.of_nat (length x)) (Z.of_nat itol) = false ->
+     forall k : pkind, solve_bicg (sp_mul s) (sp_tmul s) (sp_rows s) (sp_cols s) itol b x max tol = Panic k -> Kd k).
+Print Assumptions entry_contract_solvers.
+(* non-vacuity at binary64 (the arithmetic the solvers are written for): the division never panics (Kd = fun _ => False), a 2x2 diagonal
+   system is accepted and every solver returns; a right-hand side of length 3 and itol = 3 are rejected *)
+Example entry_contract_solvers_nonvacuous :
+  (forall (x y : SAF) (k : pkind), div x y = Panic k -> False) /\
+  match sp_from_triplets (A := AF) 2 2 [(0, 0, 2%float); (1, 1, 4%float)] with
+  | Ok s =>
+      let b : list SAF := [2%float; 4%float] in let x0 : list SAF := [0%float; 0%float] in let tol : SAF := 0x1p-30%float in
+      is_ok (solve_cg (A := SAF) (sp_mul s) 2 2 b x0 10 tol) = true /\ is_ok (solve_bicg (A := SAF) (sp_mul s) (sp_tmul s) 2 2 1 b x0 10 tol) = true /\
+      is_ok (solve_bicgstab (A := SAF) (sp_mul s) 2 2 b x0 10 tol) = true /\ is_ok (solve_qmr (A := SAF) (sp_mul s) (sp_tmul s) 2 2 b x0 10 tol) = true /\
+      panics_with Guard (solve_cg (A := SAF) (sp_mul s) 2 2 (1%float :: b) x0 10 tol) = true /\ panics_with Guard (solve_qmr (A := SAF) (sp_mul s) (sp_tmul s) 2 2 b (1%float :: x0) 10 tol) = true /\
+      panics_with Guard (solve_bicg (A := SAF) (sp_mul s) (sp_tmul s) 2 2 3 b x0 10 tol) = true
+  | Panic _ => False
+  end /\
+  g_sp_solve_cg 2 2 3 2 = true /\ g_sp_solve_qmr 2 2 2 3 = true /\ g_sp_solve_bicg 2 2 2 2 3 = true /\ g_sp_solve_bicg 2 2 2 2 1 = false.
+Proof. split; [intros x y k E; discriminate E|]. vm_compute. repeat split; reflexivity. Qed.
+
+(* ---- Mesh1D / Mesh2D (5 entries): set_nodes_vars get_nodes_vars (1-D and 2-D) var_as_matrix; any arithmetic, any coordinate type.
+   Mesh2D range rejections: the explicit guard, or -- only on a mesh with an empty direction -- the checked usize `nx - 1` / `ny - 1`. ---- *)
+Theorem entry_contract_mesh :
+  (* rejects_mesh1_set_nodes_vars *)
+    (forall (A : Arith) (X : Type) (m : mesh1 A X) (node : nat) (v : list A),
+     g_mesh1_set_nodes_vars (Z.of_nat (length (m1_nodes m))) (Z.of_nat (m1_nvars m)) (Z.of_nat node) (Z.of_nat (length v)) = true ->
+     set_nodes_vars1 m node v = Panic Guard) /\
+  (* accepts_mesh1_set_nodes_vars *)
+    (forall (A : Arith) (X : Type) (m : mesh1 A X) (node : nat) (v : list A),
+     MeshBase.wf1 m ->
+     g_mesh1_set_nodes_vars (Z.of_nat (length (m1_nodes m))) (Z.of_nat (m1_nvars m)) (Z.of_nat node) (Z.of_nat (length v)) = false ->
+     exists m' : mesh1 A X, set_nodes_vars1 m node v = Ok m') /\
+  (* frame_mesh1_set_nodes_vars *)
+    (forall (A : Arith) (X : Type) (m : mesh1 A X) (node : nat) (v : list A) (m' : mesh1 A X),
+     MeshBase.wf1 m ->
+     set_nodes_vars1 m node v = Ok m' ->
+     MeshBase.wf1 m' /\
+     m1_nodes m' = m1_nodes m /\
+     m1_nvars m' = m1_nvars m /\
+     get_nodes_vars1 m' node = Ok v /\
+     (forall node' : nat, node' < length (m1_nodes m) -> node' <> node -> get_nodes_vars1 m' node' = get_nodes_vars1 m node')) /\
+  (* rejects_mesh1_get_nodes_vars *)
+    (forall (A : Arith) (X : Type) (m : mesh1 A X) (node : nat),
+     g_mesh1_get_nodes_vars (Z.of_nat (length (m1_nodes m))) (Z.of_nat (m1_nvars m)) (Z.of_nat node) = true -> get_nodes_vars1 m node = Panic Guard) /\
+  (* accepts_mesh1_get_nodes_vars *)
+    (forall (A : Arith) (X : Type) (m : mesh1 A X) (node : nat),
+     MeshBase.wf1 m ->
+     g_mesh1_get_nodes_vars (Z.of_nat (length (m1_nodes m))) (Z.of_nat (m1_nvars m)) (Z.of_nat node) = false ->
+     exists v : list A, get_nodes_vars1 m node = Ok v /\ length v = m1_nvars m) /\
+  (* rejects_mesh2_set_nodes_vars *)
+    (forall (A : Arith) (X : Type) (m : mesh2 A X) (i j : nat) (v : list A),
+     g_mesh2_set_nodes_vars (Z.of_nat (m2_nx m)) (Z.of_nat (m2_ny m)) (Z.of_nat (m2_nvars m)) (Z.of_nat i) (Z.of_nat j) (Z.of_nat (length v)) =
+     true -> exists k : pkind, set_nodes_vars2 m i j v = Panic k /\ GuardsModelMesh.guard_or_empty_underflow m k) /\
+  (* accepts_mesh2_set_nodes_vars *)
+    (forall (A : Arith) (X : Type) (m : mesh2 A X) (i j : nat) (v : list A),
+     MeshBase.wf2 m ->
+     g_mesh2_set_nodes_vars (Z.of_nat (m2_nx m)) (Z.of_nat (m2_ny m)) (Z.of_nat (m2_nvars m)) (Z.of_nat i) (Z.of_nat j) (Z.of_nat (length v)) =
+     false -> exists m' : mesh2 A X, set_nodes_vars2 m i j v = Ok m') /\
+  (* frame_mesh2_set_nodes_vars *)
+    (forall (A : Arith) (X : Type) (m : mesh2 A X) (i j : nat) (v : list A) (m' : mesh2 A X),
+     MeshBase.wf2 m ->
+     set_nodes_vars2 m i j v = Ok m' ->
+     MeshBase.wf2 m' /\
+     MeshStore.shape2_eq m' m /\
+     get_nodes_vars2 m' i j = Ok v /\
+     (forall i' j' : nat, i' < m2_nx m -> j' < m2_ny m -> (i', j') <> (i, j) -> get_nodes_vars2 m' i' j' = get_nodes_vars2 m i' j')) /\
+  (* rejects_mesh2_get_nodes_vars *)
+    (forall (A : Arith) (X : Type) (m : mesh2 A X) (i j : nat),
+     g_mesh2_get_nodes_vars (Z.of_nat (m2_nx m)) (Z.of_nat (m2_ny m)) (Z.of_nat i) (Z.of_nat j) = true ->
+     exists k : pkind, get_nodes_vars2 m i j = Panic k /\ GuardsModelMesh.guard_or_empty_underflow m k) /\
+  (* accepts_mesh2_get_nodes_vars *)
+    (forall (A : Arith) (X : Type) (m : mesh2 A X) (i j : nat),
+     MeshBase.wf2 m ->
+     g_mesh2_get_nodes_vars (Z.of_nat (m2_nx m)) (Z.of_nat (m2_ny m)) (Z.of_nat i) (Z.of_nat j) = false ->
+     exists v : list A, get_nodes_vars2 m i j = Ok v /\ length v = m2_nvars m) /\
+  (* rejects_mesh2_var_as_matrix *)
+    (forall (A : Arith) (X : Type) (m : mesh2 A X) (var : nat),
+     g_mesh2_var_as_matrix (Z.of_nat (m2_nx m)) (Z.of_nat (m2_ny m)) (Z.of_nat (m2_nvars m)) (Z.of_nat var) = true ->
+     var_as_matrix m var = Panic Guard) /\
+  (* accepts_mesh2_var_as_matrix *)
+    (forall (A : Arith) (X : Type) (m : mesh2 A X) (var : nat),
+     MeshBase.wf2 m ->
+     g_mesh2_var_as_matrix (Z.of_nat (m2_nx m)) (Z.of_nat (m2_ny m)) (Z.of_nat (m2_nvars m)) (Z.of_nat var) = false ->
+     exists M : matrix A, var_as_matrix m var = Ok M /\ rows M = m2_nx m /\ cols M = m2_ny m /\ length (buf M) = m2_nx m * m2_ny m).
+Proof. exact GuardsModelFamilies.entry_contract_mesh_lemma. Qed.
+Check entry_contract_mesh :
+  (* rejects_mesh1_set_nodes_vars *)
+    (forall (A : Arith) (X : Type) (m : mesh1 A X) (node : nat) (v : list A),
+     g_mesh1_set_nodes_vars (Z.of_nat (length (m1_nodes m))) (Z.of_nat (m1_nvars m)) (Z.of_nat node) (Z.of_nat (length v)) = true ->
+     set_nodes_vars1 m node v = Panic Guard) /\
+  (* accepts_mesh1_set_nodes_vars *)
+    (forall (A : Arith) (X : Type) (m : mesh1 A X) (node : nat) (v : list A),
+     MeshBase.wf1 m ->
+     g_mesh1_set_nodes_vars (Z.of_nat (length (m1_nodes m))) (Z.of_nat (m1_nvars m)) (Z.of_nat node) (Z.of_nat (length v)) = false ->
+     exists m' : mesh1 A X, set_nodes_vars1 m node v = Ok m') /\
+  (* frame_mesh1_set_nodes_vars *)
+    (forall (A : Arith) (X : Type) (m : mesh1 A X) (node : nat) (v : list A) (m' : mesh1 A X),
+     MeshBase.wf1 m ->
+     set_nodes_vars1 m node v = Ok m' ->
+     MeshBase.wf1 m' /\
+     m1_nodes m' = m1_nodes m /\
+     m1_nvars m' = m1_nvars m /\
+     get_nodes_vars1 m' node = Ok v /\
+     (forall node' : nat, node' < length (m1_nodes m) -> node' <> node -> get_nodes_vars1 m' node' = get_nodes_vars1 m node')) /\
+  (* rejects_mesh1_get_nodes_vars *)
+    (forall (A : Arith) (X : Type) (m : mesh1 A X) (node : nat),
+     g_mesh1_get_nodes_vars (Z.of_nat (length (m1_nodes m))) (Z.of_nat (m1_nvars m)) (Z.of_nat node) = true -> get_nodes_vars1 m node = Panic Guard) /\
+  (* accepts_mesh1_get_nodes_vars *)
+    (forall (A : Arith) (X : Type) (m : mesh1 A X) (node : nat),
+     MeshBase.wf1 m ->
+     g_mesh1_get_nodes_vars (Z.of_nat (length (m1_nodes m))) (Z.of_nat (m1_nvars m)) (Z.of_nat node) = false ->
+     exists v : list A, get_nodes_vars1 m node = Ok v /\ length v = m1_nvars m) /\
+  (* rejects_mesh2_set_nodes_vars *)
+    (forall (A : Arith) (X : Type) (m : mesh2 A X) (i j : nat) (v : list A),
+     g_mesh2_set_nodes_vars (Z.of_nat (m2_nx m)) (Z.of_nat (m2_ny m)) (Z.of_nat (m2_nvars m)) (Z.of_nat i) (Z.of_nat j) (Z.of_nat (length v)) =
+     true -> exists k : pkind, set_nodes_vars2 m i j v = Panic k /\ GuardsModelMesh.guard_or_empty_underflow m k) /\
+  (* accepts_mesh2_set_nodes_vars *)
+    (forall (A : Arith) (X : Type) (m : mesh2 A X) (i j : nat) (v : list A),
+     MeshBase.wf2 m ->
+     g_mesh2_set_nodes_vars (Z.of_nat (m2_nx m)) (Z.of_nat (m2_ny m)) (Z.of_nat (m2_nvars m)) (Z.of_nat i) (Z.of_nat j) (Z.of_nat (length v)) =
+     false -> exists m' : mesh2 A X, set_nodes_vars2 m i j v = Ok m') /\
+  (* frame_mesh2_set_nodes_vars *)
+    (forall (A : Arith) (X : Type) (m : mesh2 A X) (i j : nat) (v : list A) (m' : mesh2 A X),
+     MeshBase.wf2 m ->
+     set_nodes_vars2 m i j v = Ok m' ->
+     MeshBase.wf2 m' /\
+     MeshStore.shape2_eq m' m /\
+     get_nodes_vars2 m' i j = Ok v /\
+     (forall i' j' : nat, i' < m2_nx m -> j' < m2_ny m -> (i', j') <> (i, j) -> get_nodes_vars2 m' i' j' = get_nodes_vars2 m i' j')) /\
+  (* rejects_mesh2_get_nodes_vars *)
+    (forall (A : Arith) (X : Type) (m : mesh2 A X) (i j : nat),
+     g_mesh2_get_nodes_vars (Z.of_nat (m2_nx m)) (Z.of_nat (m2_ny m)) (Z.of_nat i) (Z.of_nat j) = true ->
+     exists k : pkind, get_nodes_vars2 m i j = Panic k /\ GuardsModelMesh.guard_or_empty_underflow m k) /\
+  (* accepts_mesh2_get_nodes_vars *)
+    (forall (A : Arith) (X : Type) (m : mesh2 A X) (i j : nat),
+     MeshBase.wf2 m ->
+     g_mesh2_get_nodes_vars (Z.of_nat (m2_nx m)) (Z.of_nat (m2_ny m)) (Z.of_nat i) (Z.of_nat j) = false ->
+     exists v : list A, get_nodes_vars2 m i j = Ok v /\ length v = m2_nvars m) /\
+  (* rejects_mesh2_var_as_matrix *)
+    (forall (A : Arith) (X : Type) (m : mesh2 A X) (var : nat),
+     g_mesh2_var_as_matrix (Z.of_nat (m2_nx m)) (Z.of_nat (m2_ny m)) (Z.of_nat (m2_nvars m)) (Z.of_nat var) = true ->
+     var_as_matrix m var = Panic Guard) /\
+  (* accepts_mesh2_var_as_matrix *)
+    (forall (A : Arith) (X : Type) (m : mesh2 A X) (var : nat),
+     MeshBase.wf2 m ->
+     g_mesh2_var_as_matrix (Z.of_nat (m2_nx m)) (Z.of_nat (m2_ny m)) (Z.of_nat (m2_nvars m)) (Z.of_nat var) = false ->
+     exists M : matrix A, var_as_matrix m var = Ok M /\ rows M = m2_nx m /\ cols M = m2_ny m /\ length (buf M) = m2_nx m * m2_ny m).
+Print Assumptions entry_contract_mesh.
+(* non-vacuity: a 3x2 mesh with two variables per node; node (3,0) and a vector of the wrong length are rejected by the guard; on a mesh with
+   no x-nodes the rejection of get_nodes_vars(0,0) is the checked `nx - 1` *)
+Example entry_contract_mesh_nonvacuous :
+  let m : mesh2 AQ nat := @mesh2_new AQ nat [0; 1; 2] [0; 1] 2 in
+  let e : mesh2 AQ nat := @mesh2_new AQ nat [] [0; 1] 1 in
+  let l : mesh1 AQ nat := @mesh1_new AQ nat [0; 1; 2] 2 in
+  MeshBase.wf2 m /\ MeshBase.wf1 l /\
+  g_mesh2_set_nodes_vars 3 2 2 3 0 2 = true /\ panics_with Guard (set_nodes_vars2 m 3 0 [q 1 1; q 2 1]) = true /\
+  g_mesh2_set_nodes_vars 3 2 2 2 1 3 = true /\ panics_with Guard (set_nodes_vars2 m 2 1 [q 1 1; q 2 1; q 3 1]) = true /\
+  g_mesh2_set_nodes_vars 3 2 2 2 1 2 = false /\ is_ok (set_nodes_vars2 m 2 1 [q 1 1; q 2 1]) = true /\
+  g_mesh2_get_nodes_vars 0 2 0 0 = true /\ panics_with Underflow (get_nodes_vars2 e 0 0) = true /\
+  g_mesh2_var_as_matrix 3 2 2 2 = true /\ panics_with Guard (var_as_matrix m 2) = true /\ is_ok (var_as_matrix m 1) = true /\
+  g_mesh1_set_nodes_vars 3 2 3 2 = true /\ panics_with Guard (set_nodes_vars1 l 3 [q 1 1; q 2 1]) = true /\ is_ok (set_nodes_vars1 l 2 [q 1 1; q 2 1]) = true /\
+  g_mesh1_get_nodes_vars 3 2 3 = true /\ panics_with Guard (get_nodes_vars1 l 3) = true.
+Proof. split; [apply MeshStore.mesh2_new_wf|]. split; [apply MeshStore.mesh1_new_wf|]. vm_compute. repeat split; reflexivity. Qed.
+
+(* ---- nothing else is written: every MUTATING checked entry point, on EVERY well-formed receiver / operand and for ALL arguments, either raises
+   the guard panic on entry (the model returns no state: the receiver is untouched) or returns the new state -- there is no third outcome, in
+   particular no index / underflow panic part-way through a writing loop (which would leave a half-written receiver in the implementation). ---- *)
+Theorem mutators_guard_or_return :
+  (* atomic_vec_add_assign *)
+    (forall (A : Arith) (u v : list A), vadd_assign u v = Panic Guard \/ (exists s' : list A, vadd_assign u v = Ok s')) /\
+  (* atomic_vec_sub_assign *)
+    (forall (A : Arith) (u v : list A), vsub_assign u v = Panic Guard \/ (exists s' : list A, vsub_assign u v = Ok s')) /\
+  (* atomic_mat_set_row *)
+    (forall (A : Arith) (m : matrix A) (row : nat) (v : list A),
+     Matrix.wf m -> set_row m row v = Panic Guard \/ (exists s' : matrix A, set_row m row v = Ok s')) /\
+  (* atomic_mat_set_col *)
+    (forall (A : Arith) (m : matrix A) (col : nat) (v : list A),
+     Matrix.wf m -> set_col m col v = Panic Guard \/ (exists s' : matrix A, set_col m col v = Ok s')) /\
+  (* atomic_mat_fill_row *)
+    (forall (A : Arith) (m : matrix A) (row : nat) (x : A),
+     Matrix.wf m -> fill_row m row x = Panic Guard \/ (exists s' : matrix A, fill_row m row x = Ok s')) /\
+  (* atomic_mat_fill_col *)
+    (forall (A : Arith) (m : matrix A) (col : nat) (x : A),
+     Matrix.wf m -> fill_col m col x = Panic Guard \/ (exists s' : matrix A, fill_col m col x = Ok s')) /\
+  (* atomic_mat_swap_rows *)
+    (forall (A : Arith) (m : matrix A) (r1 r2 : nat),
+     Matrix.wf m -> swap_rows m r1 r2 = Panic Guard \/ (exists s' : matrix A, swap_rows m r1 r2 = Ok s')) /\
+  (* atomic_mat_delete_row *)
+    (forall (A : Arith) (m : matrix A) (row : nat),
+     Matrix.wf m -> delete_row m row = Panic Guard \/ (exists s' : matrix A, delete_row m row = Ok s')) /\
+  (* atomic_mat_add_assign *)
+    (forall (A : Arith) (a b : matrix A),
+     Matrix.wf a -> Matrix.wf b -> madd_assign a b = Panic Guard \/ (exists s' : matrix A, madd_assign a b = Ok s')) /\
+  (* atomic_mat_sub_assign *)
+    (forall (A : Arith) (a b : matrix A),
+     Matrix.wf a -> Matrix.wf b -> msub_assign a b = Panic Guard \/ (exists s' : matrix A, msub_assign a b = Ok s')) /\
+  (* atomic_band_fill_band *)
+    (forall (A : Arith) (B : banded A) (band : Z) (x : A),
+     Banded.wfB B -> band_fill_band B band x = Panic Guard \/ (exists s' : banded A, band_fill_band B band x = Ok s')) /\
+  (* atomic_band_index_mut *)
+    (forall (A : Arith) (B : banded A) (i j : nat) (x : A),
+     Banded.wfB B -> i < bn B -> band_set B i j x = Panic Guard \/ (exists s' : banded A, band_set B i j x = Ok s')) /\
+  (* atomic_band_add_assign *)
+    (forall (A : Arith) (B C : banded A),
+     Banded.wfB B -> Banded.wfB C -> band_add_assign B C = Panic Guard \/ (exists s' : banded A, band_add_assign B C = Ok s')) /\
+  (* atomic_band_sub_assign *)
+    (forall (A : Arith) (B C : banded A),
+     Banded.wfB B -> Banded.wfB C -> band_sub_assign B C = Panic Guard \/ (exists s' : banded A, band_sub_assign B C = Ok s')) /\
+  (* atomic_tri_index_mut *)
+    (forall (A : Arith) (t : tridiag A) (i j : nat) (x : A),
+     Tridiag.wfT t -> tset t i j x = Panic Guard \/ (exists s' : tridiag A, tset t i j x = Ok s')) /\
+  (* atomic_sp_insert *)
+    (forall (A : Arith) (s : sparse A) (row col : nat) (v : A),
+     SparseBase.wfS s -> sp_insert s row col v = Panic Guard \/ (exists s' : sparse A, sp_insert s row col v = Ok s')) /\
+  (* atomic_poly_index_mut *)
+    (forall (A : Arith) (p : list A) (i : nat) (x : A), pindex_set p i x = Panic Guard \/ (exists s' : poly, pindex_set p i x = Ok s')) /\
+  (* atomic_mesh1_set_nodes_vars *)
+    (forall (A : Arith) (X : Type) (m : mesh1 A X) (node : nat) (v : list A),
+     MeshBase.wf1 m -> set_nodes_vars1 m node v = Panic Guard \/ (exists s' : mesh1 A X, set_nodes_vars1 m node v = Ok s')) /\
+  (* atomic_mesh2_set_nodes_vars *)
+    (forall (A : Arith) (X : Type) (m : mesh2 A X) (i j : nat) (v : list A),
+     MeshBase.wf2 m ->
+     (exists k : pkind, set_nodes_vars2 m i j v = Panic k /\ GuardsModelMesh.guard_or_empty_underflow m k) \/
+     (exists m' : mesh2 A X, set_nodes_vars2 m i j v = Ok m')).
+Proof. exact GuardsModelFamilies.mutators_guard_or_return_lemma. Qed.
+Check mutators_guard_or_return :
+  (* atomic_vec_add_assign *)
+    (forall (A : Arith) (u v : list A), vadd_assign u v = Panic Guard \/ (exists s' : list A, vadd_assign u v = Ok s')) /\
+  (* atomic_vec_sub_assign *)
+    (forall (A : Arith) (u v : list A), vsub_assign u v = Panic Guard \/ (exists s' : list A, vsub_assign u v = Ok s')) /\
+  (* atomic_mat_set_row *)
+    (forall (A : Arith) (m : matrix A) (row : nat) (v : list A),
+     Matrix.wf m -> set_row m row v = Panic Guard \/ (exists s' : matrix A, set_row m row v = Ok s')) /\
+  (* atomic_mat_set_col *)
+    (forall (A : Arith) (m : matrix A) (col : nat) (v : list A),
+     Matrix.wf m -> set_col m col v = Panic Guard \/ (exists s' : matrix A, set_col m col v = Ok s')) /\
+  (* atomic_mat_fill_row *)
+    (forall (A : Arith) (m : matrix A) (row : nat) (x : A),
+     Matrix.wf m -> fill_row m row x = Panic Guard \/ (exists s' : matrix A, fill_row m row x = Ok s')) /\
+  (* atomic_mat_fill_col *)
+    (forall (A : Arith) (m : matrix A) (col : nat) (x : A),
+     Matrix.wf m -> fill_col m col x = Panic Guard \/ (exists s' : matrix A, fill_col m col x = Ok s')) /\
+  (* atomic_mat_swap_rows *)
+    (forall (A : Arith) (m : matrix A) (r1 r2 : nat),
+     Matrix.wf m -> swap_rows m r1 r2 = Panic Guard \/ (exists s' : matrix A, swap_rows m r1 r2 = Ok s')) /\
+  (* atomic_mat_delete_row *)
+    (forall (A : Arith) (m : matrix A) (row : nat),
+     Matrix.wf m -> delete_row m row = Panic Guard \/ (exists s' : matrix A, delete_row m row = Ok s')) /\
+  (* atomic_mat_add_assign *)
+    (forall (A : Arith) (a b : matrix A),
+     Matrix.wf a -> Matrix.wf b -> madd_assign a b = Panic Guard \/ (exists s' : matrix A, madd_assign a b = Ok s')) /\
+  (* atomic_mat_sub_assign *)
+    (forall (A : Arith) (a b : matrix A),
+     Matrix.wf a -> Matrix.wf b -> msub_assign a b = Panic Guard \/ (exists s' : matrix A, msub_assign a b = Ok s')) /\
+  (* atomic_band_fill_band *)
+    (forall (A : Arith) (B : banded A) (band : Z) (x : A),
+     Banded.wfB B -> band_fill_band B band x = Panic Guard \/ (exists s' : banded A, band_fill_band B band x = Ok s')) /\
+  (* atomic_band_index_mut *)
+    (forall (A : Arith) (B : banded A) (i j : nat) (x : A),
+     Banded.wfB B -> i < bn B -> band_set B i j x = Panic Guard \/ (exists s' : banded A, band_set B i j x = Ok s')) /\
+  (* atomic_band_add_assign *)
+    (forall (A : Arith) (B C : banded A),
+     Banded.wfB B -> Banded.wfB C -> band_add_assign B C = Panic Guard \/ (exists s' : banded A, band_add_assign B C = Ok s')) /\
+  (* atomic_band_sub_assign *)
+    (forall (A : Arith) (B C : banded A),
+     Banded.wfB B -> Banded.wfB C -> band_sub_assign B C = Panic Guard \/ (exists s' : banded A, band_sub_assign B C = Ok s')) /\
+  (* atomic_tri_index_mut *)
+    (forall (A : Arith) (t : tridiag A) (i j : nat) (x : A),
+     Tridiag.wfT t -> tset t i j x = Panic Guard \/ (exists s' : tridiag A, tset t i j x = Ok s')) /\
+  (* atomic_sp_insert *)
+    (forall (A : Arith) (s : sparse A) (row col : nat) (v : A),
+     SparseBase.wfS s -> sp_insert s row col v = Panic Guard \/ (exists s' : sparse A, sp_insert s row col v = Ok s')) /\
+  (* atomic_poly_index_mut *)
+    (forall (A : Arith) (p : list A) (i : nat) (x : A), pindex_set p i x = Panic Guard \/ (exists s' : poly, pindex_set p i x = Ok s')) /\
+  (* atomic_mesh1_set_nodes_vars *)
+    (forall (A : Arith) (X : Type) (m : mesh1 A X) (node : nat) (v : list A),
+     MeshBase.wf1 m -> set_nodes_vars1 m node v = Panic Guard \/ (exists s' : mesh1 A X, set_nodes_vars1 m node v = Ok s')) /\
+  (* atomic_mesh2_set_nodes_vars *)
+    (forall (A : Arith) (X : Type) (m : mesh2 A X) (i j : nat) (v : list A),
+     MeshBase.wf2 m ->
+     (exists k : pkind, set_nodes_vars2 m i j v = Panic k /\ GuardsModelMesh.guard_or_empty_underflow m k) \/
+     (exists m' : mesh2 A X, set_nodes_vars2 m i j v = Ok m')).
+Print Assumptions mutators_guard_or_return.
+(* non-vacuity: both outcomes occur for the same receiver *)
+Example mutators_guard_or_return_nonvacuous :
+  let M : matrix AQ := @mkM AQ [q 1 1; q 2 1; q 3 1; q 4 1; q 5 1; q 6 1] 2 3 in
+  Matrix.wf M /\ panics_with Guard (set_row M 2 [q 1 1; q 2 1; q 3 1]) = true /\ is_ok (set_row M 1 [q 1 1; q 2 1; q 3 1]) = true /\
+  panics_with Guard (fill_col M 3 (q 0 1)) = true /\ is_ok (fill_col M 2 (q 0 1)) = true.
+Proof. vm_compute. repeat split; reflexivity. Qed.
+
+(* ---- the 13 entry points protected by std's own bounds checks only (no guard in the source, hence no g_<entry>; ranges = the `spec` column of
+   driver/guardtable.py): Vector Index IndexMut swap insert pop, Banded Index beyond the last row, Mesh1D Index IndexMut coord, Mesh2D coord
+   cross_section_xnode cross_section_ynode apply.  Outside the range: a native panic (Index; Unwrap for pop; the Mesh2D range rejection for the
+   cross sections), no value; inside: a value; writers change only what they address. ---- *)
+Theorem entry_contract_native :
+  (* native_vec_index *)
+    (forall (A : Arith) (v : list A) (i : nat), (length v <= i -> vget v i = Panic Index) /\ (i < length v -> vget v i = Ok (nth i v zero))) /\
+  (* native_vec_index_mut *)
+    (forall (A : Arith) (v : list A) (i : nat) (x : A),
+     (length v <= i -> vset v i x = Panic Index) /\
+     (i < length v ->
+      exists v' : list A,
+        vset v i x = Ok v' /\ length v' = length v /\ nth i v' zero = x /\ (forall j : nat, j <> i -> nth j v' zero = nth j v zero))) /\
+  (* native_vec_swap *)
+    (forall (A : Arith) (v : list A) (i j : nat),
+     (length v <= i \/ length v <= j -> vswap v i j = Panic Index) /\
+     (i < length v ->
+      j < length v ->
+      exists v' : list A, vswap v i j = Ok v' /\ length v' = length v /\ (forall k : nat, k <> i -> k <> j -> nth k v' zero = nth k v zero))) /\
+  (* native_vec_insert *)
+    (forall (A : Arith) (v : list A) (pos : nat) (x : A),
+     (length v < pos -> vinsert v pos x = Panic Index) /\
+     (pos <= length v -> exists v' : list A, vinsert v pos x = Ok v' /\ length v' = S (length v))) /\
+  (* native_vec_pop *)
+    (forall (A : Arith) (v : list A),
+     (length v = 0 -> vpop v = Panic Unwrap) /\ (1 <= length v -> exists (v' : list A) (x : A), vpop v = Ok (v', x) /\ v = v' ++ [x])) /\
+  (* native_band_index_rows *)
+    (forall (A : Arith) (B : banded A) (i : nat),
+     Banded.wfB B -> (bn B <= i -> band_get B i i = Panic Index) /\ (i < bn B -> exists x : A, band_get B i i = Ok x)) /\
+  (* native_mesh1_index *)
+    (forall (A : Arith) (X : Type) (m : mesh1 A X) (node : nat),
+     MeshBase.wf1 m ->
+     (length (m1_nodes m) <= node -> index1 m node = Panic Index) /\
+     (node < length (m1_nodes m) -> exists v : list A, index1 m node = Ok v /\ length v = m1_nvars m)) /\
+  (* native_mesh1_index_mut *)
+    (forall (A : Arith) (X : Type) (m : mesh1 A X) (node : nat) (v : list A),
+     MeshBase.wf1 m ->
+     (length (m1_nodes m) <= node -> index1_set m node v = Panic Index) /\
+     (node < length (m1_nodes m) ->
+      exists m' : mesh1 A X,
+        index1_set m node v = Ok m' /\
+        m1_nodes m' = m1_nodes m /\
+        m1_nvars m' = m1_nvars m /\ index1 m' node = Ok v /\ (forall node' : nat, node' <> node -> index1 m' node' = index1 m node'))) /\
+  (* native_mesh1_coord *)
+    (forall (A : Arith) (X : Type) (m : mesh1 A X) (node : nat),
+     (length (m1_nodes m) <= node -> coord1 m node = Panic Index) /\ (node < length (m1_nodes m) -> exists x : X, coord1 m node = Ok x)) /\
+  (* native_mesh2_coord *)
+    (forall (A : Arith) (X : Type) (m : mesh2 A X) (i j : nat),
+     MeshBase.wf2 m ->
+     (m2_nx m <= i \/ m2_ny m <= j -> coord2 m i j = Panic Index) /\ (i < m2_nx m -> j < m2_ny m -> exists p : X * X, coord2 m i j = Ok p)) /\
+  (* native_mesh2_cross_section_xnode *)
+    (forall (A : Arith) (X : Type) (m : mesh2 A X) (i : nat),
+     MeshBase.wf2 m ->
+     1 <= m2_ny m ->
+     (m2_nx m <= i -> exists k : pkind, cross_section_xnode m i = Panic k /\ GuardsModelMesh.guard_or_empty_underflow m k) /\
+     (i < m2_nx m -> exists s : mesh1 A X, cross_section_xnode m i = Ok s /\ MeshBase.wf1 s /\ m1_nodes s = m2_y m)) /\
+  (* native_mesh2_cross_section_ynode *)
+    (forall (A : Arith) (X : Type) (m : mesh2 A X) (j : nat),
+     MeshBase.wf2 m ->
+     1 <= m2_nx m ->
+     (m2_ny m <= j -> exists k : pkind, cross_section_ynode m j = Panic k /\ GuardsModelMesh.guard_or_empty_underflow m k) /\
+     (j < m2_ny m -> exists s : mesh1 A X, cross_section_ynode m j = Ok s /\ MeshBase.wf1 s /\ m1_nodes s = m2_x m)) /\
+  (* native_mesh2_apply *)
+    (forall (A : Arith) (X : Type) (func : X -> X -> res A) (m : mesh2 A X) (var : nat),
+     MeshBase.wf2 m ->
+     1 <= m2_nx m ->
+     1 <= m2_ny m ->
+     (m2_nvars m <= var -> (forall x y : X, exists v : A, func x y = Ok v) -> apply2 func m var = Panic Index) /\
+     (var < m2_nvars m ->
+      (forall x y : X, exists v : A, func x y = Ok v) ->
+      exists m' : mesh2 A X, apply2 func m var = Ok m' /\ MeshBase.wf2 m' /\ MeshStore.shape2_eq m' m)).
+Proof. exact GuardsModelFamilies.entry_contract_native_lemma. Qed.
+Check entry_contract_native :
+  (* native_vec_index *)
+    (forall (A : Arith) (v : list A) (i : nat), (length v <= i -> vget v i = Panic Index) /\ (i < length v -> vget v i = Ok (nth i v zero))) /\
+  (* native_vec_index_mut *)
+    (forall (A : Arith) (v : list A) (i : nat) (x : A),
+     (length v <= i -> vset v i x = Panic Index) /\
+     (i < length v ->
+      exists v' : list A,
+        vset v i x = Ok v' /\ length v' = length v /\ nth i v' zero = x /\ (forall j : nat, j <> i -> nth j v' zero = nth j v zero))) /\
+  (* native_vec_swap *)
+    (forall (A : Arith) (v : list A) (i j : nat),
+     (length v <= i \/ length v <= j -> vswap v i j = Panic Index) /\
+     (i < length v ->
+      j < length v ->
+      exists v' : list A, vswap v i j = Ok v' /\ length v' = length v /\ (forall k : nat, k <> i -> k <> j -> nth k v' zero = nth k v zero))) /\
+  (* native_vec_insert *)
+    (forall (A : Arith) (v : list A) (pos : nat) (x : A),
+     (length v < pos -> vinsert v pos x = Panic Index) /\
+     (pos <= length v -> exists v' : list A, vinsert v pos x = Ok v' /\ length v' = S (length v))) /\
+  (* native_vec_pop *)
+    (forall (A : Arith) (v : list A),
+     (length v = 0 -> vpop v = Panic Unwrap) /\ (1 <= length v -> exists (v' : list A) (x : A), vpop v = Ok (v', x) /\ v = v' ++ [x])) /\
+  (* native_band_index_rows *)
+    (forall (A : Arith) (B : banded A) (i : nat),
+     Banded.wfB B -> (bn B <= i -> band_get B i i = Panic Index) /\ (i < bn B -> exists x : A, band_get B i i = Ok x)) /\
+  (* native_mesh1_index *)
+    (forall (A : Arith) (X : Type) (m : mesh1 A X) (node : nat),
+     MeshBase.wf1 m ->
+     (length (m1_nodes m) <= node -> index1 m node = Panic Index) /\
+     (node < length (m1_nodes m) -> exists v : list A, index1 m node = Ok v /\ length v = m1_nvars m)) /\
+  (* native_mesh1_index_mut *)
+    (forall (A : Arith) (X : Type) (m : mesh1 A X) (node : nat) (v : list A),
+     MeshBase.wf1 m ->
+     (length (m1_nodes m) <= node -> index1_set m node v = Panic Index) /\
+     (node < length (m1_nodes m) ->
+      exists m' : mesh1 A X,
+        index1_set m node v = Ok m' /\
+        m1_nodes m' = m1_nodes m /\
+        m1_nvars m' = m1_nvars m /\ index1 m' node = Ok v /\ (forall node' : nat, node' <> node -> index1 m' node' = index1 m node'))) /\
+  (* native_mesh1_coord *)
+    (forall (A : Arith) (X : Type) (m : mesh1 A X) (node : nat),
+     (length (m1_nodes m) <= node -> coord1 m node = Panic Index) /\ (node < length (m1_nodes m) -> exists x : X, coord1 m node = Ok x)) /\
+  (* native_mesh2_coord *)
+    (forall (A : Arith) (X : Type) (m : mesh2 A X) (i j : nat),
+     MeshBase.wf2 m ->
+     (m2_nx m <= i \/ m2_ny m <= j -> coord2 m i j = Panic Index) /\ (i < m2_nx m -> j < m2_ny m -> exists p : X * X, coord2 m i j = Ok p)) /\
+  (* native_mesh2_cross_section_xnode *)
+    (forall (A : Arith) (X : Type) (m : mesh2 A X) (i : nat),
+     MeshBase.wf2 m ->
+     1 <= m2_ny m ->
+     (m2_nx m <= i -> exists k : pkind, cross_section_xnode m i = Panic k /\ GuardsModelMesh.guard_or_empty_underflow m k) /\
+     (i < m2_nx m -> exists s : mesh1 A X, cross_section_xnode m i = Ok s /\ MeshBase.wf1 s /\ m1_nodes s = m2_y m)) /\
+  (* native_mesh2_cross_section_ynode *)
+    (forall (A : Arith) (X : Type) (m : mesh2 A X) (j : nat),
+     MeshBase.wf2 m ->
+     1 <= m2_nx m ->
+     (m2_ny m <= j -> exists k : pkind, cross_section_ynode m j = Panic k /\ GuardsModelMesh.guard_or_empty_underflow m k) /\
+     (j < m2_ny m -> exists s : mesh1 A X, cross_section_ynode m j = Ok s /\ MeshBase.wf1 s /\ m1_nodes s = m2_x m)) /\
+  (* native_mesh2_apply *)
+    (forall (A : Arith) (X : Type) (func : X -> X -> res A) (m : mesh2 A X) (var : nat),
+     MeshBase.wf2 m ->
+     1 <= m2_nx m ->
+     1 <= m2_ny m ->
+     (m2_nvars m <= var -> (forall x y : X, exists v : A, func x y = Ok v) -> apply2 func m var = Panic Index) /\
+     (var < m2_nvars m ->
+      (forall x y : X, exists v : A, func x y = Ok v) ->
+      exists m' : mesh2 A X, apply2 func m var = Ok m' /\ MeshBase.wf2 m' /\ MeshStore.shape2_eq m' m)).
+Print Assumptions entry_contract_native.
+Example entry_contract_native_nonvacuous :
+  let v : list AQ := [q 1 1; q 2 1; q 3 1] in
+  let m : mesh2 AQ nat := @mesh2_new AQ nat [0; 1; 2] [0; 1] 2 in
+  panics_with Index (vget v 3) = true /\ is_ok (vget v 2) = true /\ panics_with Index (vswap v 0 3) = true /\ is_ok (vswap v 0 2) = true /\
+  panics_with Index (vinsert v 4 (q 9 1)) = true /\ is_ok (vinsert v 3 (q 9 1)) = true /\ panics_with Unwrap (vpop (A := AQ) []) = true /\ is_ok (vpop v) = true /\
+  panics_with Index (band_get (@band_new AQ 3 1 1 (q 1 1)) 3 3) = true /\
+  MeshBase.wf2 m /\ panics_with Guard (cross_section_xnode m 3) = true /\ is_ok (cross_section_xnode m 2) = true /\
+  panics_with Index (coord2 m 3 0) = true /\ panics_with Index (apply2 (A := AQ) (fun _ _ => Ok (q 1 1 : AQ)) m 2) = true /\ is_ok (apply2 (A := AQ) (fun _ _ => Ok (q 1 1 : AQ)) m 1) = true.
+Proof.
+  assert (W : MeshBase.wf2 (@mesh2_new AQ nat [0; 1; 2] [0; 1] 2)) by apply MeshStore.mesh2_new_wf.
+  vm_compute. repeat split; try reflexivity; apply W.
+Qed.
+
+(* ---- Polynomial (3 entries): Index IndexMut and the degree guard of roots (every root arithmetic). ---- *)
+Theorem entry_contract_polynomial :
+  (* rejects_poly_index *)
+    (forall (A : Arith) (p : list A) (i : nat), g_poly_index (Z.of_nat (length p)) (Z.of_nat i) = true -> pindex p i = Panic Guard) /\
+  (* accepts_poly_index *)
+    (forall (A : Arith) (p : list A) (i : nat), g_poly_index (Z.of_nat (length p)) (Z.of_nat i) = false -> pindex p i = Ok (nth i p zero)) /\
+  (* rejects_poly_index_mut *)
+    (forall (A : Arith) (p : list A) (i : nat) (x : A),
+     g_poly_index_mut (Z.of_nat (length p)) (Z.of_nat i) = true -> pindex_set p i x = Panic Guard) /\
+  (* accepts_poly_index_mut *)
+    (forall (A : Arith) (p : list A) (i : nat) (x : A),
+     g_poly_index_mut (Z.of_nat (length p)) (Z.of_nat i) = false -> exists p' : list A, pindex_set p i x = Ok p') /\
+  (* frame_poly_index_mut *)
+    (forall (A : Arith) (p : list A) (i : nat) (x : A) (p' : list A),
+     pindex_set p i x = Ok p' -> length p' = length p /\ nth i p' zero = x /\ (forall j : nat, j <> i -> nth j p' zero = nth j p zero)) /\
+  (* rejects_poly_roots_degree *)
+    (forall (RA : RootArith) (coeffs : list (KK RA)) (refine : bool),
+     1 <= length coeffs -> g_poly_roots_degree (Z.of_nat (length coeffs)) = true -> poly_solve RA coeffs refine = Panic Guard).
+Proof. exact GuardsModelFamilies.entry_contract_polynomial_lemma. Qed.
+Check entry_contract_polynomial :
+  (* rejects_poly_index *)
+    (forall (A : Arith) (p : list A) (i : nat), g_poly_index (Z.of_nat (length p)) (Z.of_nat i) = true -> pindex p i = Panic Guard) /\
+  (* accepts_poly_index *)
+    (forall (A : Arith) (p : list A) (i : nat), g_poly_index (Z.of_nat (length p)) (Z.of_nat i) = false -> pindex p i = Ok (nth i p zero)) /\
+  (* rejects_poly_index_mut *)
+    (forall (A : Arith) (p : list A) (i : nat) (x : A),
+     g_poly_index_mut (Z.of_nat (length p)) (Z.of_nat i) = true -> pindex_set p i x = Panic Guard) /\
+  (* accepts_poly_index_mut *)
+    (forall (A : Arith) (p : list A) (i : nat) (x : A),
+     g_poly_index_mut (Z.of_nat (length p)) (Z.of_nat i) = false -> exists p' : list A, pindex_set p i x = Ok p') /\
+  (* frame_poly_index_mut *)
+    (forall (A : Arith) (p : list A) (i : nat) (x : A) (p' : list A),
+     pindex_set p i x = Ok p' -> length p' = length p /\ nth i p' zero = x /\ (forall j : nat, j <> i -> nth j p' zero = nth j p zero)) /\
+  (* rejects_poly_roots_degree *)
+    (forall (RA : RootArith) (coeffs : list (KK RA)) (refine : bool),
+     1 <= length coeffs -> g_poly_roots_degree (Z.of_nat (length coeffs)) = true -> poly_solve RA coeffs refine = Panic Guard).
+Print Assumptions entry_contract_polynomial.
+Example entry_contract_polynomial_nonvacuous :
+  let p : list AQ := [q 1 1; q 2 1; q 3 1] in
+  g_poly_index 3 3 = true /\ panics_with Guard (pindex p 3) = true /\ g_poly_index 3 2 = false /\ is_ok (pindex p 2) = true /\
+  g_poly_index_mut 3 3 = true /\ panics_with Guard (pindex_set p 3 (q 9 1)) = true /\ is_ok (pindex_set p 0 (q 9 1)) = true /\
+  g_poly_roots_degree 1 = true /\ g_poly_roots_degree 2 = false /\
+  panics_with Guard (poly_solve (FloatRA []) [@mkC AF 1%float 0%float] true) = true.
+Proof. vm_compute. repeat split; reflexivity. Qed.
+
+(* ---- Polynomial::roots accepted (>= 2 coefficients) on the float instance with ANY table of libm results: no index / underflow panic anywhere in
+   poly_solve, laguer, the deflation, the polishing pass (reuses C10's float_roots_memory_safe; primitive-float axioms). ---- *)
+Theorem entry_contract_roots_float :
+  (* accepts_poly_roots_degree_float *)
+    (forall (tbl : list float) (coeffs : list (KK (FloatRA tbl))) (refine : bool),
+     g_poly_roots_degree (Z.of_nat (length coeffs)) = false ->
+     1 <= length coeffs -> poly_solve (FloatRA tbl) coeffs refine <> Panic Index /\ poly_solve (FloatRA tbl) coeffs refine <> Panic Underflow).
+Proof. exact GuardsModelFamilies.entry_contract_roots_float_lemma. Qed.
+Check entry_contract_roots_float :
+  (* accepts_poly_roots_degree_float *)
+    (forall (tbl : list float) (coeffs : list (KK (FloatRA tbl))) (refine : bool),
+     g_poly_roots_degree (Z.of_nat (length coeffs)) = false ->
+     1 <= length coeffs -> poly_solve (FloatRA tbl) coeffs refine <> Panic Index /\ poly_solve (FloatRA tbl) coeffs refine <> Panic Underflow).
+Print Assumptions entry_contract_roots_float.
+Example entry_contract_roots_float_nonvacuous :
+  g_poly_roots_degree 3 = false /\ 1 <= length [@mkC AF 2%float 0%float; @mkC AF 0%float 0%float; @mkC AF 1%float 0%float].
+Proof. vm_compute. split; [reflexivity|]. repeat constructor. Qed.
+
+(* ---- the contracts are not vacuous: the two pre-repair functions with a guard / range defect (set_col_legacy: the guard compared the column
+   with the number of rows; tmul_legacy: no n = 1 branch) violate them on concrete rational inputs, the repaired functions meet them there ---- *)
+Theorem entry_contract_refutes_legacy :
+  (exists (m : matrix AQ) (col : nat) (v : list AQ),
+     Matrix.wf m /\
+     g_mat_set_col (Z.of_nat (rows m)) (Z.of_nat (cols m)) (Z.of_nat col) (Z.of_nat (length v)) = false /\
+     set_col_legacy m col v = Panic Guard /\ is_ok (set_col m col v) = true) /\
+  (exists (m : matrix AQ) (col : nat) (v : list AQ),
+     Matrix.wf m /\
+     g_mat_set_col (Z.of_nat (rows m)) (Z.of_nat (cols m)) (Z.of_nat col) (Z.of_nat (length v)) = true /\
+     set_col_legacy m col v = Panic Index /\ set_col m col v = Panic Guard) /\
+  (exists (t : tridiag AQ) (v : list AQ),
+     Tridiag.wfT t /\
+     1 <= tn t /\ g_tri_mul_vec (Z.of_nat (tn t)) (Z.of_nat (length v)) = false /\ tmul_legacy t v = Panic Index /\ is_ok (tmul t v) = true).
+Proof. exact GuardsModelLegacy.entry_contract_refutes_legacy_lemma. Qed.
+Check entry_contract_refutes_legacy :
+  (exists (m : matrix AQ) (col : nat) (v : list AQ),
+     Matrix.wf m /\
+     g_mat_set_col (Z.of_nat (rows m)) (Z.of_nat (cols m)) (Z.of_nat col) (Z.of_nat (length v)) = false /\
+     set_col_legacy m col v = Panic Guard /\ is_ok (set_col m col v) = true) /\
+  (exists (m : matrix AQ) (col : nat) (v : list AQ),
+     Matrix.wf m /\
+     g_mat_set_col (Z.of_nat (rows m)) (Z.of_nat (cols m)) (Z.of_nat col) (Z.of_nat (length v)) = true /\
+     set_col_legacy m col v = Panic Index /\ set_col m col v = Panic Guard) /\
+  (exists (t : tridiag AQ) (v : list AQ),
+     Tridiag.wfT t /\
+     1 <= tn t /\ g_tri_mul_vec (Z.of_nat (tn t)) (Z.of_nat (length v)) = false /\ tmul_legacy t v = Panic Index /\ is_ok (tmul t v) = true).
+Print Assumptions entry_contract_refutes_legacy.
+
+(* ---- the model functions the entry contracts speak about ARE the functions in the source of this run: for 46 of the 62 entries the model
+   function is equal, for all arguments, to the function regenerated from /repo/src on this run by the Rust-subset -> Gallina translator
+   (gen/Src*.v, Proofs/SrcEq*.v; the same statements are obligations of C01-C07, C15).  Deleting, weakening or moving a guard, or changing a
+   loop bound / index of one of these functions in the source breaks the obligation below for its file, besides guard_<entry>.
+   Not regenerated (tied by differential execution only): Banded/Tridiagonal/Polynomial IndexMut and Polynomial Index, Sparse::from_triplets
+   (its helper col_start_from_index is), dot_f64, the four iterative solvers, the mesh accessors, poly_solve. ---- *)
+From OV Require Proofs.SrcEqVector.
+Theorem model_is_source_C20_Vector : forall A : Arith, @SrcEqVector.model_is_source_Vector A.
+Proof. intros A. exact SrcEqVector.model_is_source_Vector_lemma. Qed.
+Check model_is_source_C20_Vector : forall A : Arith, @SrcEqVector.model_is_source_Vector A.
+Print Assumptions model_is_source_C20_Vector.
+
+From OV Require Proofs.SrcEqMatrix.
+Theorem model_is_source_C20_Matrix : forall A : Arith, @SrcEqMatrix.model_is_source_Matrix A.
+Proof. intros A. exact SrcEqMatrix.model_is_source_Matrix_lemma. Qed.
+Check model_is_source_C20_Matrix : forall A : Arith, @SrcEqMatrix.model_is_source_Matrix A.
+Print Assumptions model_is_source_C20_Matrix.
+
+From OV Require Proofs.SrcEqMatArith.
+Theorem model_is_source_C20_MatArith : forall A : Arith, @SrcEqMatArith.model_is_source_MatArith A.
+Proof. intros A. exact SrcEqMatArith.model_is_source_MatArith_lemma. Qed.
+Check model_is_source_C20_MatArith : forall A : Arith, @SrcEqMatArith.model_is_source_MatArith A.
+Print Assumptions model_is_source_C20_MatArith.
+
+From OV Require Proofs.SrcEqSolve.
+Theorem model_is_source_C20_Solve : forall A : Arith, @SrcEqSolve.model_is_source_Solve A.
+Proof. intros A. exact SrcEqSolve.model_is_source_Solve_lemma. Qed.
+Check model_is_source_C20_Solve : forall A : Arith, @SrcEqSolve.model_is_source_Solve A.
+Print Assumptions model_is_source_C20_Solve.
+
+From OV Require Proofs.SrcEqBanded.
+Theorem model_is_source_C20_Banded : forall A : Arith, @SrcEqBanded.model_is_source_Banded A.
+Proof. intros A. exact SrcEqBanded.model_is_source_Banded_lemma. Qed.
+Check model_is_source_C20_Banded : forall A : Arith, @SrcEqBanded.model_is_source_Banded A.
+Print Assumptions model_is_source_C20_Banded.
+
+From OV Require Proofs.SrcEqTridiag.
+Theorem model_is_source_C20_Tridiag : forall A : Arith, @SrcEqTridiag.model_is_source_Tridiag A.
+Proof. intros A. exact SrcEqTridiag.model_is_source_Tridiag_lemma. Qed.
+Check model_is_source_C20_Tridiag : forall A : Arith, @SrcEqTridiag.model_is_source_Tridiag A.
+Print Assumptions model_is_source_C20_Tridiag.
+
+From OV Require Proofs.SrcEqSparse.
+Theorem model_is_source_C20_Sparse : forall A : Arith, @SrcEqSparse.model_is_source_Sparse A.
+Proof. intros A. exact SrcEqSparse.model_is_source_Sparse_lemma. Qed.
+Check model_is_source_C20_Sparse : forall A : Arith, @SrcEqSparse.model_is_source_Sparse A.
+Print Assumptions model_is_source_C20_Sparse.
